@@ -25,6 +25,51 @@ TMP_ROOT = os.environ.get("C16_TMP", "/tmp/wk/C16/tmp")
 
 
 # ----------------------------------------------------------------------------- datasets <-> JSON
+# Non-finite doubles are carried through the (value-agnostic) storage model as reserved rationals that
+# no binary64 value can take: the encoding stays injective, so "dataset read = dataset written" still
+# means what it says.  -0.0 is identified with 0.0 (they compare equal).
+F_NAN, F_INF = 2 ** 1100, 2 ** 1101
+
+
+def fenc(x):
+    x = float(x)
+    if x != x:
+        return F_NAN
+    if x in (float("inf"), float("-inf")):
+        return F_INF if x > 0 else -F_INF
+    return canon.enc(x)
+
+
+def fdec(v):
+    q = Fraction(v)
+    if q == F_NAN:
+        return float("nan")
+    if abs(q) == F_INF:
+        return float("inf") if q > 0 else float("-inf")
+    return float(q)
+
+
+def fclose(a, b, rel=1e-12, abs_=0):
+    """tolerant comparison of two encoded float lists (nested allowed); the reserved non-finite codes
+    only equal themselves; exact Fraction arithmetic throughout"""
+    rel, abs_ = Fraction(rel), Fraction(abs_)
+    if isinstance(a, list) or isinstance(b, list):
+        return (isinstance(a, list) and isinstance(b, list) and len(a) == len(b)
+                and all(fclose(x, y, rel, abs_) for x, y in zip(a, b)))
+    if a is None or b is None or isinstance(a, bool) or isinstance(b, bool):
+        return a is b or (a == b and type(a) is type(b))
+    try:
+        x, y = Fraction(a), Fraction(b)
+    except (ValueError, TypeError):
+        return a == b
+    if x == y:
+        return True
+    if abs(x) >= F_NAN or abs(y) >= F_NAN:
+        return False
+    d = abs(x - y)
+    return d <= abs_ or d <= rel * max(abs(x), abs(y))
+
+
 def enc_ds(x):
     """numpy array / Python scalar -> {"dt","sh","v"} (None -> None)"""
     if x is None:
@@ -40,13 +85,11 @@ def enc_ds(x):
             return {"dt": "other:" + x.dtype.name, "sh": [], "v": [int(x)]}
         return {"dt": "i64", "sh": [], "v": [int(x)]}
     if isinstance(x, (float, numpy.floating)):
-        if isinstance(x, numpy.float32) and numpy.isfinite(x):
-            return {"dt": "f32", "sh": [], "v": [canon.enc(float(x))]}
+        if isinstance(x, numpy.float32):
+            return {"dt": "f32", "sh": [], "v": [fenc(x)]}
         if isinstance(x, numpy.floating) and x.dtype != numpy.float64:
             return {"dt": "other:" + x.dtype.name, "sh": [], "v": [str(x)]}
-        if x != x or x in (float("inf"), float("-inf")):
-            return {"dt": "other:nonfinite", "sh": [], "v": [str(x)]}
-        return {"dt": "f64", "sh": [], "v": [canon.enc(float(x))]}
+        return {"dt": "f64", "sh": [], "v": [fenc(x)]}
     if isinstance(x, str):
         return {"dt": "str", "sh": [], "v": [x]}
     if isinstance(x, bytes):
@@ -60,14 +103,12 @@ def enc_ds(x):
             return {"dt": "i64", "sh": sh, "v": [int(v) for v in flat]}
         if x.dtype == numpy.int32:
             return {"dt": "i32", "sh": sh, "v": [int(v) for v in flat]}
-        if x.dtype == numpy.float32 and numpy.all(numpy.isfinite(flat)):
-            return {"dt": "f32", "sh": sh, "v": [canon.enc(float(v)) for v in flat]}
+        if x.dtype == numpy.float32:
+            return {"dt": "f32", "sh": sh, "v": [fenc(v) for v in flat]}
         if x.dtype == numpy.bool_:
             return {"dt": "bool", "sh": sh, "v": [int(v) for v in flat]}
         if x.dtype == numpy.float64:
-            if not numpy.all(numpy.isfinite(flat)):
-                return {"dt": "other:nonfinite", "sh": sh, "v": [str(v) for v in flat]}
-            return {"dt": "f64", "sh": sh, "v": [canon.enc(float(v)) for v in flat]}
+            return {"dt": "f64", "sh": sh, "v": [fenc(v) for v in flat]}
         if x.dtype == object:
             if all(isinstance(v, str) for v in flat):
                 return {"dt": "str", "sh": sh, "v": [str(v) for v in flat]}
@@ -84,7 +125,7 @@ def dec_ds(j, scalar_py=True):
         return None
     dt, sh, v = j["dt"], j["sh"], j["v"]
     if dt in ("f64", "f32"):
-        vals = [float(Fraction(x)) for x in v]
+        vals = [fdec(x) for x in v]
         if sh == []:
             return vals[0] if dt == "f64" else numpy.float32(vals[0])
         return numpy.array(vals, dtype={"f64": "float64", "f32": "float32"}[dt]).reshape(sh)
@@ -169,6 +210,13 @@ CLASSES["egmap"] = {"fields": ["vrnt_chrgrp", "vrnt_phypos", "vrnt_stop", "vrnt_
                     "ctor": ["vrnt_chrgrp", "vrnt_phypos", "vrnt_stop", "vrnt_genpos", "vrnt_name", "vrnt_fncode"],
                     "no_hdf5": True}
 H5_CLASSES = [c for c in CLASSES if not CLASSES[c].get("no_hdf5")]
+# TruePhenotyping: no stored parameters, only the bound genomic model
+CLASSES["tp"] = {"fields": [], "ctor": []}
+# three- and four-way variance matrices: (n,n,n,t) / (n,n,n,n,t), same field list as the two-way class
+CLASSES["vmat3"] = CLASSES["vmat"]
+CLASSES["vmat4"] = CLASSES["vmat"]
+H5_CLASSES += ["vmat3", "vmat4", "tp"]
+VM_AXES = {"vmat": 2, "vmat3": 3, "vmat4": 4}
 
 _M = {}
 
@@ -196,6 +244,14 @@ def _mods():
         "algmod": DenseAdditiveLinearGenomicModel, "adlgmod": DenseAdditiveDominanceLinearGenomicModel,
         "ge": G_E_Phenotyping,
     })
+    from pybrops.model.vmat.DenseThreeWayDHAdditiveGeneticVarianceMatrix import \
+        DenseThreeWayDHAdditiveGeneticVarianceMatrix
+    from pybrops.model.vmat.DenseFourWayDHAdditiveGeneticVarianceMatrix import \
+        DenseFourWayDHAdditiveGeneticVarianceMatrix
+    from pybrops.breed.prot.pt.TruePhenotyping import TruePhenotyping
+    _M["tp"] = TruePhenotyping
+    _M.update({"vmat3": DenseThreeWayDHAdditiveGeneticVarianceMatrix,
+               "vmat4": DenseFourWayDHAdditiveGeneticVarianceMatrix})
     from pybrops.popgen.gmap.StandardGeneticMap import StandardGeneticMap
     from pybrops.popgen.gmap.ExtendedGeneticMap import ExtendedGeneticMap
     import pandas
@@ -209,27 +265,129 @@ def _gpmod(t):
     return M["algmod"](beta=numpy.zeros((1, t)), u_misc=None, u_a=numpy.ones((2, t)), trait=None)
 
 
-def build(cls, fields, ctx=0, grouped=False):
-    """construct the real pybrops object from encoded fields"""
+# ----------------------------------------------------------------------------- variations of one object
+# memory layouts: the same logical array held in a buffer that is not C-contiguous
+def relayout(a, how):
+    if not isinstance(a, numpy.ndarray) or a.ndim == 0 or how is None:
+        return a
+    if how == "F" and a.ndim >= 2:
+        return numpy.asfortranarray(a)
+    if how == "roll" and a.ndim >= 2:           # base array holds the axes rotated by one (a transposed view)
+        p = list(range(1, a.ndim)) + [0]
+        return numpy.ascontiguousarray(a.transpose(p)).transpose(numpy.argsort(p))
+    if how == "neg":                            # negative strides
+        sl = tuple(slice(None, None, -1) for _ in a.shape)
+        return numpy.ascontiguousarray(a[sl])[sl]
+    # "strided" (and the 1-d fallback of F / roll): every second element of a larger buffer
+    big = numpy.empty(tuple(2 * s_ for s_ in a.shape), dtype=a.dtype)
+    sl = tuple(slice(None, None, 2) for _ in a.shape)
+    big[sl] = a
+    return big[sl]
+
+
+LAYOUTS = [None, "F", "roll", "strided", "neg"]
+
+# concrete classes of one family (same fields, same constructor keywords): the subclasses inherit or
+# re-implement the persistence / copy methods
+PYCLS = {
+    "bvmat": ["pybrops.popgen.bvmat.DenseEstimatedBreedingValueMatrix",
+              "pybrops.popgen.bvmat.DenseGenomicEstimatedBreedingValueMatrix"],
+    "cmat": ["pybrops.popgen.cmat.DenseVanRadenCoancestryMatrix", "pybrops.popgen.cmat.DenseYangCoancestryMatrix",
+             "pybrops.popgen.cmat.DenseGeneralizedWeightedCoancestryMatrix"],
+    "vmat": ["pybrops.model.vmat.DenseTwoWayDHAdditiveGenicVarianceMatrix",
+             "pybrops.model.vmat.DenseDihybridDHAdditiveGeneticVarianceMatrix",
+             "pybrops.model.vmat.DenseDihybridDHAdditiveGenicVarianceMatrix"],
+    "vmat3": ["pybrops.model.vmat.DenseThreeWayDHAdditiveGenicVarianceMatrix"],
+    "vmat4": ["pybrops.model.vmat.DenseFourWayDHAdditiveGenicVarianceMatrix"],
+    "algmod": ["pybrops.model.gmod.rrBLUPModel0"],
+}
+
+
+def pyclass(cls, var=None):
     M = _mods()
+    name = (var or {}).get("pycls")
+    if not name:
+        return M[cls]
+    if name not in _M:
+        import importlib
+        _M[name] = getattr(importlib.import_module(name), name.split(".")[-1])
+    return _M[name]
+
+
+def _user_spline(chrgrp, phypos, genpos, kind, fill, warp):
+    """a pre-built spline dictionary as the documented `spline=` argument takes it: interpolators that
+    were NOT fitted to the map's own arrays (`warp` bends the genetic positions)"""
+    from scipy.interpolate import interp1d
+    out = {}
+    for g in numpy.unique(chrgrp):
+        m = chrgrp == g
+        x = phypos[m].astype(float)
+        y = genpos[m] * warp + (x - x.min()) * 1e-4
+        out[g] = interp1d(x=numpy.concatenate([x, [x.max() + 10.0, x.max() + 25.0, x.max() + 30.0]]),
+                          y=numpy.concatenate([y, [y.max() + 0.5, y.max() + 0.75, y.max() + 1.5]]),
+                          kind=kind, fill_value=fill, assume_sorted=False)
+    return out
+
+
+def _fill_value(f):
+    if f is None or isinstance(f, str):
+        return "extrapolate" if f is None else f
+    return numpy.array(float(Fraction(f)))
+
+
+def apply_edit(obj, e):
+    """one in-place step of a history on a live object"""
+    k = e["k"]
+    if e["t"] == "bump":                       # overwrite the buffer in place
+        a = getattr(obj, k)
+        if isinstance(a, numpy.ndarray):
+            bump_inplace(a)
+    elif e["t"] == "set":                      # re-assign the attribute
+        setattr(obj, k, dec_item(e["v"]))
+    elif e["t"] == "call":                     # a method of the class (sorting, grouping, pruning, statistics)
+        getattr(obj, k)(*[numpy.array(a) if isinstance(a, list) else a for a in e.get("a", [])])
+
+
+def build(cls, fields, ctx=0, grouped=False, var=None):
+    """construct the real pybrops object from encoded fields; `var` = how (memory layout of the arrays
+    handed over, concrete subclass, spline options of a genetic map, in-place steps applied afterwards)"""
+    M = _mods()
+    var = var or {}
+    fam = cls
     spec = CLASSES[cls]
-    kw = {k: dec_item(fields.get(k)) for k in spec["ctor"]}
-    if cls == "gmat" and kw.get("ploidy") is None:
+    lay = var.get("layout")
+    kw = {k: relayout(dec_item(fields.get(k)), lay) for k in spec["ctor"]}
+    C = pyclass(cls, var)
+    if fam == "gmat" and kw.get("ploidy") is None:
         kw.pop("ploidy", None)
-    if cls == "ge":
-        obj = M[cls](gpmod=_gpmod(ctx), **kw)
-    elif cls in ("sgmap", "egmap"):
-        return M[cls](auto_group=True, auto_build_spline=True, **kw)
+    if fam in ("ge", "tp"):
+        obj = C(gpmod=_gpmod(ctx), **kw)
+    elif fam in ("sgmap", "egmap"):
+        sp = var.get("spline") or {}
+        mode = sp.get("mode", "auto")
+        kind = sp.get("kind", "linear")
+        fill = _fill_value(sp.get("fill"))
+        if mode == "auto":
+            obj = C(auto_group=True, auto_build_spline=True, spline_kind=kind, spline_fill_value=fill, **kw)
+        elif mode == "none":
+            obj = C(auto_group=True, auto_build_spline=False, **kw)
+        else:                                   # a user-supplied, pre-built spline
+            usr = _user_spline(kw["vrnt_chrgrp"], kw["vrnt_phypos"], kw["vrnt_genpos"], kind, fill,
+                               float(Fraction(sp.get("warp", "3/2"))))
+            obj = C(auto_group=True, auto_build_spline=False, spline=usr, spline_kind=kind,
+                    spline_fill_value=fill, **kw)
     else:
-        obj = M[cls](**kw)
+        obj = C(**kw)
     for k in spec["fields"]:
-        if k not in spec["ctor"] and k != "ploidy" and fields.get(k) is not None:
+        if k not in spec["ctor"] and k != "ploidy" and fields.get(k) is not None and fam not in ("sgmap", "egmap"):
             setattr(obj, k, dec_item(fields[k]))
     if grouped:
         if getattr(obj, "taxa_grp", None) is not None and hasattr(obj, "group_taxa"):
             obj.group_taxa()
         if getattr(obj, "vrnt_chrgrp", None) is not None and hasattr(obj, "group_vrnt"):
             obj.group_vrnt()
+    for e in var.get("prep") or []:
+        apply_edit(obj, e)
     return obj
 
 
@@ -269,9 +427,213 @@ def bump_inplace(a):
         a += 1
 
 
+# ----------------------------------------------------------------------------- generic observable state
+def _is_rng(x):
+    return isinstance(x, (numpy.random.Generator, numpy.random.RandomState)) or hasattr(x, "bit_generator") \
+        or type(x).__module__.startswith("pybrops.core.random")
+
+
+def _is_interp(x):
+    return type(x).__name__ == "interp1d"
+
+
+def _probe_interp(f):
+    """an interpolator is what it computes: knots, kind, fill rule and its values at probe points
+    (between the knots, at them, and outside on both sides)"""
+    x = numpy.asarray(f.x, dtype=float)
+    xs = sorted(set(float(v) for v in x))
+    pts = list(xs) + [(a + b) / 2 for a, b in zip(xs, xs[1:])] + [(2 * a + b) / 3 for a, b in zip(xs, xs[1:])]
+    pts += [xs[0] - 1.0, xs[0] - 7.5, xs[-1] + 1.0, xs[-1] + 123.25]
+    vals = []
+    for q in pts:
+        try:
+            vals.append(fenc(float(f(q))))
+        except Exception as e:          # bounds_error etc.: the refusal is the behaviour
+            vals.append("raise:" + type(e).__name__)
+    fv = getattr(f, "fill_value", None)
+    try:
+        fvs = [fenc(v) for v in numpy.atleast_1d(numpy.asarray(fv, dtype=float)).reshape(-1)] \
+            if not isinstance(fv, str) else fv
+    except Exception:
+        fvs = repr(fv)
+    return {"x": enc_ds(x), "y": enc_ds(numpy.asarray(f.y, dtype=float)), "kind": str(getattr(f, "_kind", "?")),
+            "fill": fvs, "bounds_error": bool(getattr(f, "bounds_error", False)), "probe": vals}
+
+
+_PROPS = {}
+
+
+def _public_props(tp):
+    if tp not in _PROPS:
+        _PROPS[tp] = [n for n in dir(tp) if not n.startswith("_") and isinstance(getattr(tp, n, None), property)]
+    return _PROPS[tp]
+
+
+def state_of(x, seen=None):
+    """everything observable about a live object, recursively over its attributes: arrays (dtype, shape,
+    values), scalars, dictionaries (as maps), sequences, nested pybrops objects, interpolators (by their
+    behaviour); the random source is an external resource"""
+    seen = set() if seen is None else seen
+    if x is None or isinstance(x, (bool, int, float, str, bytes, numpy.generic)):
+        return {"imm": enc_ds(x)}
+    if isinstance(x, numpy.ndarray):
+        return {"arr": enc_ds(x)}
+    if _is_rng(x):
+        return {"ext": "rng"}
+    if id(x) in seen:
+        return {"cycle": type(x).__name__}
+    seen = seen | {id(x)}
+    if isinstance(x, dict):
+        items = [[(str(int(k)) if isinstance(k, (int, numpy.integer)) else repr(k) if not isinstance(k, str) else k),
+                  state_of(v, seen)] for k, v in x.items()]
+        return {"dict": sorted(items, key=lambda kv: kv[0])}
+    if isinstance(x, (list, tuple)):
+        return {"seq": [state_of(v, seen) for v in x], "type": type(x).__name__}
+    if _is_interp(x):
+        return {"interp1d": _probe_interp(x)}
+    if type(x).__module__.startswith("pybrops") and hasattr(x, "__dict__"):
+        attrs = []
+        for k, v in vars(x).items():
+            # observable = what the public property of the same name hands out (a private slot that the
+            # class's own getter overrides, e.g. `_ploidy` of a phased matrix, is not state)
+            pub = k[1:] if k.startswith("_") else k
+            if pub != k:
+                if not isinstance(getattr(type(x), pub, None), property):
+                    # a private slot under another public name (`_params` is handed out by `hyperparams`)?
+                    # otherwise nobody can read it through the public interface (a cache, say): not state
+                    alias = None
+                    if isinstance(v, (dict, list, numpy.ndarray)):
+                        for nme in _public_props(type(x)):
+                            try:
+                                if getattr(x, nme) is v:
+                                    alias = nme
+                                    break
+                            except Exception:
+                                pass
+                    if alias is None:
+                        continue
+                    pub = alias
+                else:
+                    try:
+                        v = getattr(x, pub)
+                    except Exception as e:
+                        v = "raise:" + type(e).__name__
+            attrs.append([pub, state_of(v, seen)])
+        return {"obj": type(x).__name__, "attrs": sorted(attrs, key=lambda kv: kv[0])}
+    return {"opaque": type(x).__name__}
+
+
+def cells_of(x, path="", out=None, seen=None):
+    """every mutable cell reachable from a live object: [(path, object)] — arrays, dictionaries, lists,
+    interpolators (and their knot arrays), nested pybrops objects; not the random source"""
+    out = [] if out is None else out
+    seen = set() if seen is None else seen
+    if x is None or isinstance(x, (bool, int, float, str, bytes, numpy.generic)):
+        return out
+    if _is_rng(x) or id(x) in seen:
+        return out
+    if isinstance(x, numpy.ndarray):
+        seen.add(id(x))
+        out.append((path, x))
+        return out
+    if isinstance(x, dict):
+        seen.add(id(x))
+        out.append((path, x))
+        for k, v in x.items():
+            cells_of(v, f"{path}[{k!r}]", out, seen)
+        return out
+    if isinstance(x, (list, tuple)):
+        seen.add(id(x))
+        if isinstance(x, list):
+            out.append((path, x))
+        for i, v in enumerate(x):
+            cells_of(v, f"{path}[{i}]", out, seen)
+        return out
+    if _is_interp(x):
+        seen.add(id(x))
+        out.append((path, x))
+        for k in ("x", "y"):
+            v = getattr(x, k, None)
+            if isinstance(v, numpy.ndarray):
+                out.append((path + "." + k, v))
+        return out
+    if type(x).__module__.startswith("pybrops") and hasattr(x, "__dict__"):
+        seen.add(id(x))
+        out.append((path, x))
+        for k, v in vars(x).items():
+            cells_of(v, path + "." + k, out, seen)
+        return out
+    return out
+
+
+def shared_cells(a, b):
+    """paths of mutable cells that two objects have in common (same object, or arrays over one buffer)"""
+    ca, cb = cells_of(a), cells_of(b)
+    ids = {id(o): p for p, o in ca}
+    hits = []
+    for p, o in cb:
+        if id(o) in ids:
+            hits.append(f"{p} is {ids[id(o)]}")
+    arr_a = [(p, o) for p, o in ca if isinstance(o, numpy.ndarray) and o.size]
+    for p, o in cb:
+        if isinstance(o, numpy.ndarray) and o.size:
+            for pa, oa in arr_a:
+                if oa is not o and numpy.shares_memory(oa, o):
+                    hits.append(f"{p} shares memory with {pa}")
+    return sorted(set(hits))
+
+
+def mutate_all(x, tag):
+    """a subsequent mutation of EVERY array and every dictionary an object can reach through its
+    attributes (not the internals of interpolators): arrays overwritten in place, a key added to each
+    dictionary.  -> number of cells changed"""
+    n = 0
+    done = set()
+    for p, o in cells_of(x):
+        if id(o) in done:
+            continue
+        if isinstance(o, numpy.ndarray):
+            if "._spline[" in p:                 # knot arrays inside an interpolator
+                continue
+            if o.size and o.flags.writeable:
+                done.add(id(o))
+                bump_inplace(o)
+                n += 1
+        elif isinstance(o, dict):
+            done.add(id(o))
+            ints = bool(o) and all(isinstance(k, (int, numpy.integer)) for k in o)
+            o[tag] = o[next(iter(o))] if ints else 1
+            n += 1
+    return n
+
+
+def diff_state(a, b, path=""):
+    """first place where two `state_of` trees differ (None when equal)"""
+    if type(a) is not type(b):
+        return path or "/"
+    if isinstance(a, dict):
+        if set(a) != set(b):
+            return f"{path} kinds {sorted(a)} vs {sorted(b)}"
+        for k in a:
+            d = diff_state(a[k], b[k], f"{path}/{k}")
+            if d:
+                return d
+        return None
+    if isinstance(a, list):
+        if len(a) != len(b):
+            return f"{path} length {len(a)} vs {len(b)}"
+        for i, (x, y) in enumerate(zip(a, b)):
+            tag = x[0] if isinstance(x, list) and len(x) == 2 and isinstance(x[0], str) else i
+            d = diff_state(x, y, f"{path}/{tag}")
+            if d:
+                return d
+        return None
+    return None if a == b else f"{path}: {str(a)[:60]!r} vs {str(b)[:60]!r}"
+
+
 # ----------------------------------------------------------------------------- object graphs
 GRAPH_ATTRS = dict({c: list(CLASSES[c]["fields"]) for c in CLASSES},
-                   ge=["gpmod", "nenv", "nrep", "var_env", "var_rep", "var_err", "rng"])
+                   ge=["gpmod", "nenv", "nrep", "var_env", "var_rep", "var_err", "rng"], tp=["gpmod"])
 
 
 class Graph:
@@ -365,7 +727,37 @@ def g_reach(cells, r, acc=None):
 # ----------------------------------------------------------------------------- generation helpers
 NAMES = ["tå", "βb", "c c", "D-4", "e_5", "ζ", "g.7", "日本", "i"]
 TRAITS = ["yld", "hté", "oil %", "prot"]
-GROUPS = [None, "a", "a/b", "grüppe/β", "/lead", "x//y", "trail/", "./dot/z", "p/q/r", "p/q/s", " sp ace"]
+GROUPS = [None, "a", "a/b", "grüppe/β", "/lead", "x//y", "trail/", "./dot/z", "p/q/r", "p/q/s", " sp ace",
+          "Zoe\u0308/\u2126", "deep/er/and/deeper/", "A", "a/B", "1", "0/1"]
+# labels that survive only if nothing "helpfully" normalises, trims, folds, retypes or re-encodes them:
+# not NFC (combining sequences, canonical singletons), NFKC-sensitive (ligature, full width), case pairs,
+# padded, CSV metacharacters, 4-byte code points, a long one
+HARD = ["Zo\u00eb", "Zoe\u0308", "Nin\u0303o", "\u03a9", "\u2126", "\u212bng", "\ufb01x", "fix", "\uff211", "A1",
+        "ab", "AB", "Ab", " lead", "trail ", "in  ner", "tab\tx", "q\"uote", "com,ma", "semi;colon", "'s'",
+        "back\\slash", "#h", "nl\ny", "\U0001f33ew", "L" * 300, "\u00df", "ss", "\u0131", "\u1eb9\u0301",
+        "e\u0323\u0301", "\u00c5", "A\u030a"]
+# … and labels that look like numbers / missing values / booleans (text files retype those: not CSV-safe)
+RETYPED = ["007", "1e5", "-3", "0.50", "NA", "nan", "None", "null", "", "True", "N/A", "1_000", "inf"]
+
+
+def _labels(rng, base, k, hard=False, csv=False, prefix=""):
+    pool = list(base)
+    if hard:
+        pool = pool + HARD + ([] if csv else RETYPED)
+        pool = _perm(rng, pool)
+        # at least one hard label whenever possible
+        pool = [rng.choice(HARD)] + [x for x in pool]
+    out = []
+    for x in _perm(rng, pool) if not hard else pool:
+        if prefix + x not in out:
+            out.append(prefix + x)
+        if len(out) == k:
+            break
+    i = 0
+    while len(out) < k:                      # more labels than the pool holds (large matrices)
+        out.append("%sx%d" % (prefix, i))
+        i += 1
+    return _perm(rng, out)
 
 
 def _perm(rng, xs):
@@ -384,17 +776,77 @@ def _dy_wide(rng):
     return canon.enc(Fraction(2 * rng.randint(-2 ** 43, 2 ** 43) + 1, 2 ** 30))
 
 
-def gen_obj(rng, cls, shape=None, rich=None, width=None):
+def _mag(rng, nonneg=False, nonfinite=False, text=False):
+    """a full-precision double at one of the magnitudes where tolerance-style shortcuts bite:
+    ~1e-8, ~1e-5, 25000 + small differences, 1e9 +- 0.5, plain; exact ties come from repeats"""
+    r = rng.random()
+    if nonfinite and not nonneg and r < 0.12:
+        return fenc(rng.choice([float("nan"), float("inf"), float("-inf")]))
+    k = rng.randrange(6)
+    if k == 0:
+        x = 1e-8 * (1 + rng.random())
+    elif k == 1:
+        x = 1e-5 * (1 + rng.random())
+    elif k == 2:
+        x = 25000.0 + rng.randint(-8, 8) * 2.0 ** -20 + rng.random() * 1e-7
+    elif k == 3:
+        x = 1e9 + rng.choice([-0.5, 0.5, 0.25, 0.0])
+    elif k == 4:
+        x = rng.choice([0.1, 0.2, 0.3, 1 / 3, 2 / 3, 0.7, 123456.789012345] +
+                       ([] if text else [1e-300, 5e-324, 1.7976931348623157e308]))
+    else:
+        x = rng.random() * rng.choice([1, 10, 1000])
+    if not nonneg and rng.random() < 0.4:
+        x = -x
+    return canon.enc(x)
+
+
+def gen_obj(rng, cls, shape=None, rich=None, width=None, hard=False, csv=False, nonfinite=False, hardf=None, extreme=True, meta=False):
     """-> (fields, ctx, grouped, shape).  `rich` = probability that an optional field is present;
     `width` = None (default dtypes, small values) | "narrow" (float32 / int32 where the class accepts
-    them) | "wide" (float64 / int64 with values that do not fit the narrow types)"""
+    them) | "wide" (float64 / int64 with values that do not fit the narrow types); `hard` = labels from
+    the HARD pool and full-precision floats at awkward magnitudes (`csv`: keep labels CSV-safe);
+    `nonfinite` = NaN / +-inf among the matrix values (storage only)"""
     if rich is None:
         rich = rng.choice([0.0, 0.3, 0.7, 1.0])
+    hardf = hard if hardf is None else hardf
     opt = lambda: rng.random() < rich
     fdt = "f32" if width == "narrow" else "f64"
     idt = "i32" if width == "narrow" else "i64"
-    fval = (lambda lo=-8, hi=8: _dy_wide(rng)) if width == "wide" else (lambda lo=-8, hi=8: _dy(rng, lo, hi))
+    if width == "wide":
+        fval = lambda lo=-8, hi=8: _dy_wide(rng)
+    elif hardf and width is None:
+        fval = lambda lo=-8, hi=8: _mag(rng, nonneg=(lo >= 0), nonfinite=nonfinite, text=(csv or not extreme))
+    else:
+        fval = lambda lo=-8, hi=8: _dy(rng, lo, hi)
+    def fvals(k, lo=-8, hi=8):
+        """k values of one array; with hard floats half of the arrays are homogeneous in magnitude (all
+        within a tolerance of 0, of 1, of a large common offset), which is what `allclose`-style tests see"""
+        if not (hardf and width is None) or rng.random() < 0.5:
+            return [fval(lo, hi) for _ in range(k)]
+        mode = rng.choice(["tiny", "tiny", "near1", "offset", "big", "tie"])
+        out = []
+        tie = _mag(rng, nonneg=(lo >= 0), text=(csv or not extreme))
+        for _ in range(k):
+            if mode == "tiny":
+                x = rng.choice([1e-9, 3e-9, 9.9e-9, 1e-12, 2e-16, 1e-8]) * (0.5 + rng.random() / 2)
+            elif mode == "near1":
+                x = 1.0 + rng.choice([-1, 1]) * rng.choice([2.0 ** -30, 1e-9, 2.0 ** -52, 4e-9])
+            elif mode == "offset":
+                x = 25000.0 + rng.randint(-64, 64) * 2.0 ** -24
+            elif mode == "big":
+                x = 1e9 + rng.choice([-0.5, 0.5, 0.25, -0.25, 0.0, 1.0])
+            else:
+                out.append(tie)
+                continue
+            if lo < 0 and mode in ("tiny",) and rng.random() < 0.3:
+                x = -x
+            out.append(canon.enc(x))
+        return out
+
     big = (lambda v: v + rng.choice([0, 2 ** 31, 3 * 2 ** 33])) if width == "wide" else (lambda v: v)
+    names = lambda k, prefix="": _labels(rng, NAMES, k, hard, csv, prefix)
+    traits = lambda k: _labels(rng, TRAITS, k, hard, csv)
     fields = {}
     ctx = 0
     grouped = False
@@ -405,7 +857,7 @@ def gen_obj(rng, cls, shape=None, rich=None, width=None):
         base = rng.randint(-128, 127)
         fields["mat"] = ds("i8", sh, [((base + 7 * i + rng.randint(0, 1)) % 256) - 128 for i in range(size)])
         if opt():
-            fields["taxa"] = ds("str", [n], _perm(rng, NAMES)[:n])
+            fields["taxa"] = ds("str", [n], names(n))
         if opt():
             fields["taxa_grp"] = ds(idt, [n], [big(rng.randint(1, 3)) for _ in range(n)])
         if opt():
@@ -413,72 +865,83 @@ def gen_obj(rng, cls, shape=None, rich=None, width=None):
         if opt():
             fields["vrnt_phypos"] = ds(idt, [p], [big(rng.randint(1, 10 ** 9)) for _ in range(p)])
         if opt():
-            fields["vrnt_name"] = ds("str", [p], ["m" + n_ for n_ in _perm(rng, NAMES)[:p]])
+            fields["vrnt_name"] = ds("str", [p], names(p, "m"))
         if opt():
-            fields["vrnt_genpos"] = ds("f64", [p], [_dy(rng, 0, 8) for _ in range(p)])
+            fields["vrnt_genpos"] = ds("f64", [p], fvals(p, 0, 8) if hardf else [_dy(rng, 0, 8) for _ in range(p)])
         if opt():
-            fields["vrnt_xoprob"] = ds("f64", [p], [canon.enc(Fraction(rng.randint(0, 8), 16)) for _ in range(p)])
+            fields["vrnt_xoprob"] = ds("f64", [p], [canon.enc(Fraction(rng.randint(0, 8), 16)) for _ in range(p)] if not hardf else
+                                       [canon.enc(rng.choice([0.0, 0.5, 1e-9, 0.5 - 1e-12, 1e-300, 0.1])) for _ in range(p)])
         if opt():
             fields["vrnt_hapgrp"] = ds(idt, [p], [big(rng.randint(0, 4)) for _ in range(p)])
         if opt():
-            fields["vrnt_hapalt"] = ds("str", [p], [rng.choice(["A", "C", "G", "T", "ÅT"]) for _ in range(p)])
+            fields["vrnt_hapalt"] = ds("str", [p], [rng.choice(["A", "C", "G", "T", "ÅT", "a", "<DEL>", "A\u030a"])
+                                                    for _ in range(p)])
         if opt():
-            fields["vrnt_hapref"] = ds("str", [p], [rng.choice(["A", "C", "G", "T"]) for _ in range(p)])
+            fields["vrnt_hapref"] = ds("str", [p], [rng.choice(["A", "C", "G", "T", "t", "N"]) for _ in range(p)])
         if opt():
             fields["vrnt_mask"] = ds("bool", [p], [rng.randint(0, 1) for _ in range(p)])
         if cls == "gmat":
             fields["ploidy"] = ds("i64", [], [rng.choice([1, 2, 2, 4])])
         grouped = rng.random() < 0.5
         shape = (m, n, p)
-    elif cls in ("bvmat", "cmat", "vmat"):
-        n, t = shape or (rng.randint(1, 4), rng.randint(1, 3))
+    elif cls in ("bvmat", "cmat", "vmat", "vmat3", "vmat4"):
+        n, t = shape or (rng.randint(1, 4) if cls in ("bvmat", "cmat", "vmat") else rng.randint(1, 3) if cls == "vmat3"
+                         else rng.randint(1, 2), rng.randint(1, 3))
         if cls == "bvmat":
-            fields["mat"] = ds(fdt, [n, t], [fval() for _ in range(n * t)])
-            fields["location"] = ds(fdt, [t], [fval() for _ in range(t)])
-            fields["scale"] = ds("f64", [t], [canon.enc(Fraction(rng.randint(1, 16), 4)) for _ in range(t)])
+            fields["mat"] = ds(fdt, [n, t], fvals(n * t))
+            fields["location"] = ds(fdt, [t], [_dy(rng) for _ in range(t)] if (nonfinite or not extreme) else fvals(t))
+            fields["scale"] = ds("f64", [t], [canon.enc(Fraction(rng.randint(1, 16), 4)) for _ in range(t)]
+                                 if not (hardf and extreme) or rng.random() < 0.5 else
+                                 [canon.enc(1.0 + rng.choice([2.0 ** -30, -2.0 ** -31, 1e-9, 0.0])) for _ in range(t)])
         elif cls == "cmat":
             # float64 / int64 only (the class insists), but wide values all the same
-            fields["mat"] = ds("f64", [n, n], [fval(0, 2) if width == "wide" else _dy(rng, 0, 2)
-                                               for _ in range(n * n)])     # asymmetric on purpose
+            fields["mat"] = ds("f64", [n, n], fvals(n * n, 0, 2) if (width == "wide" or hardf) else
+                               [_dy(rng, 0, 2) for _ in range(n * n)])     # asymmetric on purpose
         else:
-            fields["mat"] = ds(fdt, [n, n, t], [fval(0, 8) for _ in range(n * n * t)])
+            k = VM_AXES[cls]
+            fields["mat"] = ds(fdt, [n] * k + [t], fvals(n ** k * t, 0, 8))
         if opt():
-            fields["taxa"] = ds("str", [n], _perm(rng, NAMES)[:n])
+            fields["taxa"] = ds("str", [n], names(n))
         if opt():
             gdt = "i64" if cls == "cmat" else idt
             fields["taxa_grp"] = ds(gdt, [n], [big(rng.randint(1, 3)) for _ in range(n)])
         if cls != "cmat" and opt():
-            fields["trait"] = ds("str", [t], _perm(rng, TRAITS)[:t])
+            fields["trait"] = ds("str", [t], traits(t))
         grouped = rng.random() < 0.5
         shape = (n, t)
     elif cls in ("algmod", "adlgmod"):
         q, pm, pa, t = shape or (rng.randint(1, 2), rng.randint(0, 2), rng.randint(1, 4), rng.randint(1, 3))
-        fields["beta"] = ds("f64", [q, t], [fval() for _ in range(q * t)])
+        fields["beta"] = ds("f64", [q, t], fvals(q * t))
         if pm > 0 or rng.random() < 0.5:
-            fields["u_misc"] = ds("f64", [pm, t], [fval() for _ in range(pm * t)])
-        fields["u_a"] = ds("f64", [pa, t], [fval() for _ in range(pa * t)])
+            fields["u_misc"] = ds("f64", [pm, t], fvals(pm * t))
+        fields["u_a"] = ds("f64", [pa, t], fvals(pa * t))
         if cls == "adlgmod":
-            fields["u_d"] = ds("f64", [pa, t], [fval() for _ in range(pa * t)])
+            fields["u_d"] = ds("f64", [pa, t], fvals(pa * t))
         if opt():
-            fields["trait"] = ds("str", [t], _perm(rng, TRAITS)[:t])
+            fields["trait"] = ds("str", [t], traits(t))
         if opt():
-            fields["model_name"] = ds("str", [], [rng.choice(["rrBLUP", "mödel №1", "x"])])
+            fields["model_name"] = ds("str", [], [rng.choice(["rrBLUP", "mödel №1", "x"] +
+                                                            (["Zoe\u0308 \u2126", " padded ", "NA"] if hard else []))])
         if opt():
             hp = {}
-            for k in _perm(rng, ["k", "lam", "nit", "tol", "wts", "flag"])[:rng.randint(0, 4)]:
+            for k in _perm(rng, ["k", "lam", "nit", "tol", "wts", "flag", "K", "Lam"])[:rng.randint(0, 4)]:
                 r = rng.random()
                 if r < 0.3:
-                    hp[k] = ds("i64", [], [rng.randint(0, 50)])
+                    hp[k] = ds("i64", [], [rng.randint(0, 50) if not hardf else rng.choice([0, -1, 2 ** 53 + 1, 2 ** 62])])
                 elif r < 0.6:
-                    hp[k] = ds("f64", [], [_dy(rng)])
+                    hp[k] = ds("f64", [], [_mag(rng) if hardf else _dy(rng)])
                 elif r < 0.75:
-                    hp[k] = ds("f64", [2], [_dy(rng), _dy(rng)])
+                    hp[k] = ds("f64", [2], [_dy(rng), _mag(rng) if hardf else _dy(rng)])
                 elif r < 0.92:
-                    hp[k] = ds("str", [], [rng.choice(["ML", "REML", "méthode"])])
+                    hp[k] = ds("str", [], [rng.choice(["ML", "REML", "méthode"] +
+                                                      (["e\u0301", "", "1e-5", " x "] if hard else []))])
                 else:
                     hp[k] = ds("bool", [], [rng.randint(0, 1)])
             fields["hyperparams"] = {"dict": hp}
         shape = (q, pm, pa, t)
+    elif cls == "tp":
+        ctx = rng.randint(1, 3)
+        shape = (ctx,)
     elif cls == "ge":
         ne, t = shape or (rng.randint(1, 3), rng.randint(1, 3))
         ctx = t
@@ -486,16 +949,18 @@ def gen_obj(rng, cls, shape=None, rich=None, width=None):
         fields["nrep"] = ds("i64", [ne], [rng.randint(1, 4) for _ in range(ne)])
         for k in ("var_env", "var_rep", "var_err"):
             if opt():
-                fields[k] = ds("f64", [t], [canon.enc(Fraction(rng.randint(0, 12), 4)) for _ in range(t)])
+                fields[k] = ds("f64", [t], fvals(t, 0, 8) if hardf else
+                               [canon.enc(Fraction(rng.randint(0, 12), 4)) for _ in range(t)])
         shape = (ne, t)
     elif cls in ("sgmap", "egmap"):
         p = (shape or (rng.randint(2, 7),))[0]
         chrs = sorted(rng.randint(1, 3) for _ in range(p))
         pos, gen = [], []
+        den = 2 ** 40 if hardf else 64
         for j in range(p):
             new = j == 0 or chrs[j] != chrs[j - 1]
             pos.append(rng.randint(1, 50) if new else pos[-1] + rng.randint(1, 1000))
-            gen.append(Fraction(rng.randint(0, 8), 64) if new else gen[-1] + Fraction(rng.randint(1, 64), 64))
+            gen.append(Fraction(rng.randint(0, den // 8), den) if new else gen[-1] + Fraction(rng.randint(1, den), den))
         order = _perm(rng, range(p))               # the constructor sorts and groups
         fields["vrnt_chrgrp"] = ds("i64", [p], [chrs[i] for i in order])
         fields["vrnt_phypos"] = ds("i64", [p], [pos[i] for i in order])
@@ -503,12 +968,22 @@ def gen_obj(rng, cls, shape=None, rich=None, width=None):
         if cls == "egmap":
             fields["vrnt_stop"] = ds("i64", [p], [pos[i] + rng.randint(0, 5) for i in order])
             if opt():
-                fields["vrnt_name"] = ds("str", [p], ["m" + n_ for n_ in _perm(rng, NAMES)[:p]])
+                fields["vrnt_name"] = ds("str", [p], names(p, "m"))
             if opt():
                 fields["vrnt_fncode"] = ds("str", [p], [rng.choice(["H", "K", "U", "çustom"]) for _ in range(p)])
         shape = (p,)
     else:
         raise ValueError(cls)
+    # group metadata assigned by hand (public setters): whatever the object holds must be saved / copied as it
+    # is, not recomputed.  Such an object is not re-grouped by the harness.
+    if meta and rng.random() < 0.12:
+        for lab, names in (("taxa_grp", TAXA_META), ("vrnt_chrgrp", VRNT_META)):
+            if fields.get(lab) is not None and names[0] in CLASSES[cls]["fields"] and cls not in ("sgmap", "egmap"):
+                g = rng.randint(1, 3)
+                mdt = fields[lab]["dt"]
+                for i, k in enumerate(names):
+                    fields[k] = ds(mdt, [g], [rng.randint(0, 9) + (5 if i == 0 else 0) for _ in range(g)])
+                grouped = False
     return fields, ctx, grouped, shape
 
 
@@ -523,51 +998,83 @@ def norm_group(g):
 class C16(Prop):
     PID = "C16"
     MODULE = "PybropsModel.Props.C16"
-    N_QUICK = 300
-    N_THOROUGH = 4000
-    CORRESPONDENCE = ("functional (h5 histories, flat copies, object-graph deep copies, VCF import, all seven "
-                      "data-frame layouts); CSV text is covered by the frame models through the abstract "
-                      "dialect contract (cell printing/parsing itself is trusted)")
-    RULE = ("h5 (40%): histories of 1-6 to_hdf5 calls on one file (8 classes; optional label arrays present/absent, "
-            "grouped or not, non-ASCII labels and group names, odd spellings of nested groups, same and different "
-            "groups and classes, richer-then-poorer and same-/different-shape overwrites, overwrite=False on "
-            "occupied groups, file name or open h5py.File) with interleaved reads and a final from_hdf5 of every "
-            "location; non-trivial = a location written at least twice or >= 5 fields present.  "
-            "graph (8%): the object graph (arrays, dictionaries, nested instances, random source) of an object "
-            "with and without aliased attributes, deep-copied by copy.deepcopy and by .deepcopy(); "
-            "copy (12%): copy.copy / copy.deepcopy / .copy() / .deepcopy() of 10 classes, then every buffer of "
-            "the copy overwritten in place; non-trivial = deep copy with >= 2 arrays.  "
-            "frame (20%): to_pandas/from_pandas or to_csv/from_csv (dict variants for models) with matching "
-            "options (label columns on/off, renamed columns, M/cM units).  "
-            "vcf (20%): VCF text with 1-4 samples x 1-7 records, unsorted chromosomes, position ties, "
-            "tri-allelic calls, phased and unphased class, with and without grouping; non-trivial = >= 2 samples, "
-            ">= 2 records, >= 2 distinct coordinates")
+    N_QUICK = 520
+    N_THOROUGH = 8000
+    CORRESPONDENCE = ("functional (h5 histories, flat copies, object-graph deep copies, VCF import, all data-frame "
+                      "layouts incl. the k-way long layout); CSV text is covered by the frame models through the "
+                      "abstract dialect contract (cell printing/parsing itself is trusted); interpolation splines "
+                      "of genetic maps are compared by behaviour (Spec only, scipy is not modelled)")
+    RULE = ("h5 (34%): histories of 1-6 to_hdf5 calls on one file (11 classes + 11 subclasses; optional label arrays "
+            "present/absent, grouped or not or with hand-assigned group metadata, labels that are not NFC / NFKC, padded, "
+            "case pairs, number- and NA-looking, 4-byte, long; non-ASCII and odd spellings of nested groups; floats at "
+            "1e-8 / 1e-5 / 25000+-small / 1e9+-0.5 / 1+-1e-9, whole arrays within a tolerance of 0 or 1, ties, NaN and "
+            "+-inf; arrays handed over Fortran-ordered / as transposed, strided, negatively strided views; same and "
+            "different groups and classes, richer-then-poorer and same-/different-shape overwrites, dtype widths, "
+            "overwrite=False on occupied groups; file name / pathlib.Path / open h5py.File on both sides; ONE live "
+            "object saved, changed in place or re-labelled, saved again; an object read back, changed and re-saved) "
+            "with interleaved reads and a final from_hdf5 of every location; non-trivial = a location written at "
+            "least twice or >= 5 fields present.  "
+            "copy (18%, stratified over 15 classes x 5 ways): copy.copy / copy.deepcopy / .copy() / .deepcopy() after a "
+            "short history of in-place steps (statistics, sort / group / prune, buffers overwritten, attributes "
+            "re-assigned); genetic maps with auto-built, user-supplied, stale or absent splines of every kind / fill "
+            "value; observable equality of every attribute incl. nested objects and interpolators, then EVERY array "
+            "and dictionary of the copy, then of the source, is changed; non-trivial = deep copy with >= 2 arrays.  "
+            "graph (6%): the object graph (arrays, dictionaries, nested instances, random source) of an object "
+            "with and without aliased attributes, deep-copied by copy.deepcopy and by .deepcopy().  "
+            "frame (26%, stratified over 9 classes x pandas/CSV): to_pandas/from_pandas or to_csv/from_csv (dict "
+            "variants for models) with matching options (label columns on/off, renamed columns, separators, M/cM "
+            "units), two- / three- / four-way variance matrices and their genic / dihybrid twins, sorted and "
+            "unsorted labels, any memory layout, exported twice with an in-place change in between.  "
+            "vcf (16%): VCF text (plain or gzip) with 1-4 samples x 1-7 records (corpus: 131 samples, 300 records), "
+            "unsorted chromosomes, position ties, SNPs / multi-allelic / indels / symbolic / no ALT, FILTER, QUAL, INFO "
+            "and extra FORMAT fields, missing IDs, phased and unphased class, with and without grouping; one file in "
+            "eight has unphased or missing calls (correspondence only); non-trivial = >= 2 samples, >= 2 records, "
+            ">= 2 distinct coordinates")
     TRUSTED = ["h5py: dataset read = dataset written (variable-length strings come back as bytes); "
                "path normalisation as modelled by Store.parsePath (checked by correspondence on odd spellings)",
                "numpy.ndarray.__copy__/__deepcopy__ allocate a fresh buffer with equal contents (copy.deepcopy "
                "itself — memo, dictionaries, the classes' __deepcopy__ — is modelled in Model/StoreGraph)",
                "pandas: DataFrame(dict) keeps insertion order, df[name] finds the column; CSV text: the dialect "
                "contract StoreFrame.Lawful (a printed float/int/label-safe string column is typed and parsed "
-               "back to itself, None = empty cell = NA; floats to 1e-9)",
-               "cyvcf2: variant.genotypes[i] = [allele0, allele1, phased], vcf.samples, CHROM/POS/ID as written",
-               "constructors of the 8 persistable classes as modelled by Store.construct* (checked on every "
-               "generated object through the driver op c16.valid and on every read-back)"]
+               "back to itself, None = empty cell = NA; floats to 1e-12 relative)",
+               "cyvcf2: variant.genotypes[i] = [allele0, allele1, phased] (missing allele = -1), vcf.samples, "
+               "CHROM/POS/ID as written",
+               "scipy.interpolate.interp1d (a genetic map's spline is compared through its knots, kind, fill rule "
+               "and values at probe points; deep copying it is copy.deepcopy's default)",
+               "constructors of the persistable classes as modelled by Store.construct* (checked on every "
+               "generated object through the driver op c16.valid and on every read-back)",
+               "non-finite doubles travel through the value-agnostic storage model as reserved rationals outside "
+               "the binary64 range (injective encoding; -0.0 is identified with 0.0)"]
     ASSUMPTIONS = ["matrices have at least one taxon / variant / trait (h5py cannot store an empty object array)",
                    "group names are non-empty strings without '..' whose components are not field names of the "
                    "classes stored in the same file; hyper-parameter keys are plain names without '/', their "
-                   "values are not None",
-                   "floats are dyadic rationals (exactly representable)",
+                   "values are not None; labels hold no NUL character (h5py refuses them)",
+                   "floats are binary64 values carried exactly (as rationals)",
                    "overwrite=False is exercised on fresh locations and on locations holding an object of the same "
                    "class (where the call must refuse and leave the file unchanged), not across classes",
                    "data-frame layouts: label arrays that the layout has no way to omit are present (trait names of "
-                   "a breeding-value matrix, taxa of coancestry / variance matrices); variance-matrix labels are "
-                   "sorted (the long layout is canonical in label order); column names are pairwise distinct",
+                   "a breeding-value matrix, taxa of coancestry / variance matrices); variance-matrix labels that "
+                   "are not sorted come back in sorted label order (the long layout is canonical in label order: "
+                   "same labelled data); column names are pairwise distinct; no magnitudes near the ends of the "
+                   "binary64 range (standardisation / unit conversion would overflow)",
+                   "breeding values through a frame are compared relative to the magnitude of their trait COLUMN "
+                   "(from_numpy re-centres and re-scales each column: a value keeps rounding accuracy at the scale "
+                   "of its column, not its own)",
                    "labels going through CSV text are label-safe: not number-, NA- or boolean-looking (read_csv "
-                   "would retype the column: '007' -> 7.0, 'NA' -> nan)",
-                   "VCF: phased diploid calls without missing alleles; a chromosome name that is not an integer "
-                   "literal is outside the quantifier (the matrix stores integer chromosomes; the import is "
-                   "refused with ValueError and the model says so); a record without ID is inside, its name is "
-                   "not compared (the code stores 'None')",
+                   "would retype the column: '007' -> 7.0, 'NA' -> nan); separators, quotes, line breaks and "
+                   "padding inside labels ARE exercised",
+                   "VCF: the Spec covers phased diploid calls without missing alleles; files with unphased separators "
+                   "or missing alleles are outside the quantifier — the code keeps the two allele columns as cyvcf2 "
+                   "delivers them (missing = -1) and ignores the phase flag, which is checked as model = code only; a "
+                   "chromosome name that is not an integer literal is outside too (the matrix stores integer "
+                   "chromosomes; the import is refused with ValueError and the model says so); a record without ID is "
+                   "inside, its name is not compared (the code stores 'None')",
+                   "a genetic map is also what it interpolates: copies must reproduce the spline (knots, kind, fill "
+                   "value, values at probe points) whether it was built from the map's current arrays or not; a "
+                   "frame round trip with the default spline options reproduces the interpolation of a map whose "
+                   "spline was auto-built with those options",
+                   "observable state = what the public property of each attribute hands out (a private slot that the "
+                   "class's own getter overrides, e.g. `_ploidy` of a phased matrix, is not state)",
                    "G_E_Phenotyping.__deepcopy__ hands the random source over on purpose (source comment 'should "
                    "not be copied'): it is treated as an external resource, not as object state"]
 
@@ -676,7 +1183,150 @@ class C16(Prop):
             {"kind": "frame", "cls": "sgmap", "ctx": 0, "via": "csv", "opts": {"units": "cM"},
              "fields": {"vrnt_chrgrp": ds("i64", [4], [2, 1, 1, 2]), "vrnt_phypos": ds("i64", [4], [10, 50, 20, 5]),
                         "vrnt_genpos": ds("f64", [4], ["7/64", "1/2", "1/4", "1/64"])}},
+        ] + self._corpus3()
+
+    def _corpus3(self):
+        """round 3: labels that are not NFC, memory layouts, interpolation splines, one live object saved
+        more than once, sizes past 127 / 1024 / 4096, magnitudes that tolerance shortcuts would eat"""
+        w = lambda cls, g, f, **kw: dict({"t": "w", "cls": cls, "group": g, "ow": True, "fields": f, "ctx": 0,
+                                         "grouped": False, "via": "name"}, **kw)
+        nfc = ["Zoe\u0308", "\u2126", "\u212bng", "Zo\u00eb"]
+        bv = {"mat": ds("f64", [4, 2], [1, 2, 3, 5, 8, 13, 21, 34]), "location": ds("f64", [2], [0, 1]),
+              "scale": ds("f64", [2], [1, 2]), "taxa": ds("str", [4], nfc), "taxa_grp": ds("i64", [4], [1, 1, 2, 2]),
+              "trait": ds("str", [2], ["Nin\u0303o", "\ufb01x"])}
+        pg = {"mat": ds("i8", [2, 4, 3], list(range(24))), "taxa": ds("str", [4], nfc),
+              "vrnt_name": ds("str", [3], ["snp_Zoe\u0308", "snp_\u2126", " m3 "]),
+              "vrnt_chrgrp": ds("i64", [3], [1, 1, 2]), "vrnt_phypos": ds("i64", [3], [5, 9, 2])}
+        n, t = 3, 2
+        vm = {"mat": ds("f64", [n, n, t], [canon.enc(Fraction(i * 7 % 19, 8)) for i in range(n * n * t)]),
+              "taxa": ds("str", [n], ["a", "b", "c"]), "taxa_grp": ds("i64", [n], [1, 2, 2]),
+              "trait": ds("str", [t], ["t1", "t2"])}
+        vm3 = {"mat": ds("f64", [2, 2, 2, 2], [canon.enc(Fraction(i * 5 % 17, 4)) for i in range(16)]),
+               "taxa": ds("str", [2], ["a", "b"]), "trait": ds("str", [2], ["t1", "t2"])}
+        gm = {"vrnt_chrgrp": ds("i64", [6], [1, 1, 1, 1, 2, 2]), "vrnt_phypos": ds("i64", [6], [10, 40, 90, 200, 5, 70]),
+              "vrnt_genpos": ds("f64", [6], ["1/16", "1/4", "1/2", "9/8", 0, "3/8"])}
+        big_n = 130
+        big = {"mat": ds("i8", [2, big_n, 3], [((i * 7) % 5) for i in range(2 * big_n * 3)]),
+               "taxa": ds("str", [big_n], ["t%03d" % i for i in range(big_n)]),
+               "taxa_grp": ds("i64", [big_n], [i % 3 for i in range(big_n)])}
+        wide = {"mat": ds("i8", [1, 2, 1030], [(i % 3) for i in range(2060)]),
+                "vrnt_phypos": ds("i64", [1030], [3 * i + 1 for i in range(1030)]),
+                "vrnt_chrgrp": ds("i64", [1030], [1 + (i * 3) // 1030 for i in range(1030)]),
+                "vrnt_name": ds("str", [1030], ["m%d" % i for i in range(1030)])}
+        cm_n = 66
+        cmbig = {"mat": ds("f64", [cm_n, cm_n], [canon.enc(((i * 31) % 257) / 7.0) for i in range(cm_n * cm_n)]),
+                 "taxa": ds("str", [cm_n], ["c%d" % i for i in range(cm_n)])}
+        bvbig = {"mat": ds("f64", [1100, 1], [canon.enc(((i * 37) % 1009) / 3.0 - 100) for i in range(1100)]),
+                 "location": ds("f64", [1], [canon.enc(1e-9)]), "scale": ds("f64", [1], [canon.enc(1.0 + 2.0 ** -30)])}
+        mags = {"mat": ds("f64", [3, 3], [canon.enc(x) for x in [1.2345678901234e-8, 25000.000000123, 1e9 + 0.5, 1e9 - 0.5,
+                                                                   1.0000000001e-5, 25000.000000124, 0.1, 1e-300, 1 / 3]]),
+                "taxa": ds("str", [3], ["a", "A", " a"])}
+        alg = {"beta": ds("f64", [1, 2], [1, 2]), "u_a": ds("f64", [2, 2], ["1/2", "3/2", 2, -1]),
+               "trait": ds("str", [2], ["yld", "hte\u0301"]),
+               "hyperparams": {"dict": {"k": ds("i64", [], [5]), "m": ds("str", [], ["Zoe\u0308"])}}}
+        recs_many = [{"chrom": 1 + (j * 3) // 300, "pos": 1000 - 3 * j if j % 2 else 3 * j + 1, "id": "r%d" % j,
+                      "calls": [[j % 2, (j // 2) % 3], [(j // 3) % 2, 1]]} for j in range(300)]
+        many_samples = ["s%03d" % i for i in range(131)]
+        return [
+            # labels that are not in NFC / NFKC form, padded, case pairs: every class of label array, nested non-ASCII group
+            {"kind": "h5", "ops": [w("bvmat", "población/ciclo 1/bv", bv), w("pgmat", "población/ciclo 1/gm/", pg),
+                                   w("algmod", "Zoe\u0308", alg), w("algmod", "Zoe\u0308", dict(alg, trait=None))]},
+            # memory layouts: transposed view / Fortran order / strides through the long and wide layouts and HDF5
+            {"kind": "frame", "cls": "vmat", "fields": vm, "ctx": 0, "via": "pandas", "opts": {"grp": True, "sorted": True},
+             "var": {"layout": "roll"}},
+            {"kind": "frame", "cls": "vmat", "fields": dict(vm, taxa_grp=None), "ctx": 0, "via": "csv", "opts": {"grp": False, "sorted": True},
+             "var": {"layout": "F"}},
+            {"kind": "frame", "cls": "vmat3", "fields": vm3, "ctx": 0, "via": "pandas", "opts": {"grp": False, "sorted": True},
+             "var": {"layout": "roll", "pycls": PYCLS["vmat3"][0]}},
+            {"kind": "frame", "cls": "bvmat", "fields": bv, "ctx": 0, "via": "csv",
+             "opts": {"taxa_col": "taxa", "taxa_grp_col": "taxa_grp", "sep": ";", "twice": True}, "var": {"layout": "strided"}},
+            {"kind": "h5", "ops": [w("vmat", "v", vm, var={"layout": "roll"}), w("pgmat", "g", pg, var={"layout": "neg"}),
+                                   w("vmat3", "v3", vm3, var={"layout": "F"})]},
+            {"kind": "copy", "cls": "vmat", "fields": vm, "ctx": 0, "grouped": True, "how": "copy.deepcopy",
+             "var": {"layout": "roll"}},
+            # genetic maps: what is interpolated is part of the map — user-supplied spline, spline made stale by pruning,
+            # non-default kind / fill value, no spline at all
+            {"kind": "copy", "cls": "sgmap", "fields": gm, "ctx": 0, "grouped": False, "how": "copy.deepcopy",
+             "var": {"spline": {"mode": "user", "kind": "cubic", "fill": None, "warp": "3/2"}}},
+            {"kind": "copy", "cls": "sgmap", "fields": gm, "ctx": 0, "grouped": False, "how": "obj.deepcopy",
+             "var": {"spline": {"mode": "auto", "kind": "linear", "fill": None},
+                     "prep": [{"t": "call", "k": "remove", "a": [[1]]}]}},
+            {"kind": "copy", "cls": "sgmap", "fields": gm, "ctx": 0, "grouped": False, "how": "copy.copy",
+             "var": {"spline": {"mode": "auto", "kind": "previous", "fill": "-1/4"},
+                     "prep": [{"t": "call", "k": "select", "a": [[0, 2, 3, 4, 5]]}]}},
+            {"kind": "copy", "cls": "egmap", "fields": dict(gm, vrnt_stop=ds("i64", [6], [11, 40, 95, 200, 5, 71])),
+             "ctx": 0, "grouped": False, "how": "copy.deepcopy",
+             "var": {"spline": {"mode": "user", "kind": "quadratic", "fill": "nan", "warp": "1/2"}}},
+            {"kind": "copy", "cls": "sgmap", "fields": gm, "ctx": 0, "grouped": False, "how": "copy.deepcopy",
+             "var": {"spline": {"mode": "none"}}},
+            {"kind": "copy", "cls": "bvmat", "fields": bv, "ctx": 0, "grouped": True, "how": "copy.copy"},
+            {"kind": "copy", "cls": "bvmat", "fields": bv, "ctx": 0, "grouped": False, "how": "obj.copy",
+             "var": {"pycls": PYCLS["bvmat"][0], "layout": "F"}},
+            {"kind": "frame", "cls": "vmat", "fields": vm, "ctx": 0, "via": "pandas",
+             "opts": {"grp": True, "sorted": True, "twice": True}, "var": {}},
+            # finding D30: TruePhenotyping has nothing to store, so a named group is never created and from_hdf5
+            # refuses it; at the base group and below an existing group the round trip holds
+            {"kind": "h5", "ops": [w("tp", "prot/true", {}, ctx=2)]},
+            {"kind": "h5", "ops": [w("tp", None, {}, ctx=2), w("bvmat", "a/b", bv), w("tp", "a", {}, ctx=1)]},
+            # ONE live object: saved, changed in place (buffer overwritten, labels dropped), saved again
+            {"kind": "h5", "ops": [
+                w("bvmat", "x", bv, id=0),
+                dict(w("bvmat", "x", bv, id=1), reuse=0, edit=[{"t": "bump", "k": "mat"}, {"t": "set", "k": "taxa", "v": None}]),
+                {"t": "r", "cls": "bvmat", "group": "x", "ctx": 0, "via": "open", "rid": 0},
+                dict(w("bvmat", "y/", bv, id=2), reuse=0, edit=[{"t": "call", "k": "tmean"}, {"t": "bump", "k": "location"}]),
+                dict(w("bvmat", "x", bv, id=3), from_read=0, edit=[{"t": "bump", "k": "mat"}])]},
+            {"kind": "h5", "ops": [
+                w("algmod", None, alg, id=0),
+                dict(w("algmod", None, alg, id=1), reuse=0, edit=[{"t": "set", "k": "hyperparams", "v": None},
+                                                                   {"t": "bump", "k": "u_a"}])]},
+            # sizes: > 127 taxa, > 1024 variants, > 4096 cells
+            {"kind": "h5", "ops": [w("pgmat", "big", big), w("pgmat", "wide", wide, grouped=True), w("cmat", "c", cmbig),
+                                   w("bvmat", "b", bvbig)]},
+            {"kind": "copy", "cls": "pgmat", "fields": big, "ctx": 0, "grouped": True, "how": "copy.deepcopy"},
+            {"kind": "frame", "cls": "cmat", "fields": cmbig, "ctx": 0, "via": "csv",
+             "opts": {"taxa_col": "taxa", "taxa_grp_col": None}},
+            # magnitudes: 1e-8, 1e-5, 25000 + 1e-7, 1e9 +- 0.5, ties broken in the 12th digit; labels differing in case / padding
+            {"kind": "h5", "ops": [w("cmat", "m", mags)]},
+            {"kind": "frame", "cls": "cmat", "fields": dict(mags, mat=ds("f64", [3, 3], mags["mat"]["v"][:7] + [canon.enc(2e-8), canon.enc(1 / 3)])),
+             "ctx": 0, "via": "csv", "opts": {"taxa_col": "taxa", "taxa_grp_col": None}},
+            # VCF: many records (> 255), many samples (> 127)
+            {"kind": "vcf", "samples": ["a", "b"], "group": True, "phased": True, "recs": recs_many},
+            {"kind": "vcf", "samples": many_samples, "group": False, "phased": False, "recs": [
+                {"chrom": 2, "pos": 7, "id": "x1", "calls": [[i % 2, (i // 2) % 2] for i in range(131)]},
+                {"chrom": 1, "pos": 9, "id": "x2", "calls": [[(i // 3) % 3, i % 3] for i in range(131)]}]},
         ]
+
+    def _safe_edits(self, rng, cls, fields):
+        """in-place steps that keep any object of the class valid whatever happened to it before:
+        buffers overwritten, labels re-assigned, read-only statistics"""
+        has = lambda k: fields.get(k) is not None
+        opts = [("bump", k) for k in CLASSES[cls]["ctor"]
+                if has(k) and fields[k].get("sh") and k not in ("scale", "nrep", "var_env", "var_rep", "var_err",
+                                                                  "taxa", "trait", "vrnt_name")]
+        if cls in ("pgmat", "gmat", "bvmat", "cmat", "vmat", "vmat3", "vmat4"):
+            opts += [("relabel", "taxa")]
+        if cls in ("pgmat", "gmat"):
+            opts += [("call", "afreq"), ("call", "maf")]
+        if cls == "bvmat":
+            opts += [("call", "tmean"), ("call", "unscale")]
+        if cls in ("algmod", "adlgmod"):
+            opts += [("hp", "hyperparams")]
+        steps = []
+        for _ in range(rng.randint(1, 2)):
+            if not opts:
+                break
+            t, k = rng.choice(opts)
+            if t == "bump":
+                steps.append({"t": "bump", "k": k})
+            elif t == "call":
+                steps.append({"t": "call", "k": k})
+            elif t == "relabel":
+                n = fields["mat"]["sh"][1 if cls == "pgmat" else 0]
+                steps.append({"t": "set", "k": k, "v": rng.choice([None, ds("str", [n], _labels(rng, NAMES, n, True))])})
+            elif t == "hp":
+                steps.append({"t": "set", "k": k, "v": rng.choice([None, {"dict": {"z": ds("f64", [3], [1, 2, "1/2"]),
+                                                                                  "s": ds("str", [], ["Zoe\u0308"])}}])})
+        return steps
 
     def _gen_h5(self, rng):
         nloc = rng.choice([1, 1, 2, 3])
@@ -693,70 +1343,119 @@ class C16(Prop):
         richness = {}       # location -> richness of the last object (half of the rewrites do not get poorer)
         mixed = rng.random() < 0.33
         nw = rng.randint(1, 6)
+        wid = 0
+        content = {}        # location -> (cls, ctx, fields) of the object it holds
+        written = []        # (id, cls, fields, ctx) of the writes so far
+        readable = []       # (rid, cls, ctx, fields) of the reads so far
         for _ in range(nw):
             g = rng.choice(locs)
             key = norm_group(g)
-            if key in state and rng.random() < 0.85:
-                cls, shape = state[key]
-                if rng.random() < (0.1 if mixed else 0.25):
-                    shape = None
+            r = rng.random()
+            base = {"t": "w", "group": g, "via": rng.choice(["name", "open", "open", "path"]), "id": wid}
+            if written and r < 0.22:
+                # the SAME live object again: changed in place since it was saved last, then saved to the
+                # same or to another location
+                j, cls, fields, ctx = rng.choice(written)
+                op = dict(base, cls=cls, reuse=j, edit=self._safe_edits(rng, cls, fields), ow=True, ctx=ctx,
+                          fields=fields, grouped=False)
+                shape = None
+            elif readable and r < 0.34:
+                # an object that was read back from the file is changed and saved again
+                j, cls, ctx, fields = rng.choice(readable)
+                op = dict(base, cls=cls, from_read=j, edit=self._safe_edits(rng, cls, fields), ow=True, ctx=ctx,
+                          fields=fields, grouped=False)
+                shape = None
             else:
-                cls, shape = rng.choice(H5_CLASSES), None
-            rich = rng.choice([0.0, 0.3, 0.7, 1.0])
-            if key in richness and rng.random() < 0.5:
-                rich = 1.0 if richness[key] > 0 else 0.0
-            richness[key] = rich
-            # a third of the histories mix dtype widths at one location: float32/int32 objects and
-            # float64/int64 objects whose values do not fit the narrow types, same shape
-            width = rng.choice(["narrow", "wide", "wide"]) if mixed else None
-            fields, ctx, grouped, shape = gen_obj(rng, cls, shape, rich=rich, width=width)
-            ow = rng.random() < 0.88
-            if key in state and state[key][0] != cls:
-                ow = True      # overwrite=False is only exercised where it must refuse (same class) or on fresh locations
-            ops.append({"t": "w", "cls": cls, "group": g, "ow": ow, "fields": fields, "ctx": ctx,
-                        "grouped": grouped, "open": rng.random() < 0.5})
-            if ow or key not in state:
-                state[key] = (cls, shape)
-            if rng.random() < 0.25:
-                c, _ = state[key]
-                ops.append({"t": "r", "cls": c, "group": g, "ctx": ctx if c == "ge" else 0})
+                if key in state and rng.random() < 0.85:
+                    cls, shape = state[key]
+                    if shape is None or rng.random() < (0.1 if mixed else 0.25):
+                        shape = None
+                else:
+                    # (the parameter-free protocol rarely: under a named group it only re-triggers finding D30)
+                    cls, shape = ("tp" if rng.random() < 0.03 else rng.choice([c for c in H5_CLASSES if c != "tp"])), None
+                rich = rng.choice([0.0, 0.3, 0.7, 1.0])
+                if key in richness and rng.random() < 0.5:
+                    rich = 1.0 if richness[key] > 0 else 0.0
+                richness[key] = rich
+                # a third of the histories mix dtype widths at one location: float32/int32 objects and
+                # float64/int64 objects whose values do not fit the narrow types, same shape
+                width = rng.choice(["narrow", "wide", "wide"]) if mixed else None
+                hard = (not mixed) and rng.random() < 0.5
+                fields, ctx, grouped, shape = gen_obj(rng, cls, shape, rich=rich, width=width, hard=hard,
+                                                      nonfinite=hard and rng.random() < 0.3, meta=True)
+                ow = rng.random() < 0.88
+                if key in state and state[key][0] != cls:
+                    ow = True      # overwrite=False is only exercised where it must refuse (same class) or on fresh locations
+                op = dict(base, cls=cls, ow=ow, fields=fields, ctx=ctx, grouped=grouped,
+                          var=self._gen_var(rng, cls, fields, shape, history=rng.random() < 0.5))
+                if op["var"].get("prep"):
+                    shape = None    # pruning / re-labelling may have changed it
+            ops.append(op)
+            written.append((wid, op["cls"], op["fields"], op["ctx"]))
+            wid += 1
+            if op["ow"] or key not in state:
+                state[key] = (op["cls"], shape)
+                content[key] = (op["cls"], op["ctx"], op["fields"])     # what the location holds from now on
+            if rng.random() < 0.3:
+                c, cctx, cfields = content[key]
+                rop = {"t": "r", "cls": c, "group": g, "ctx": cctx if c in ("ge", "tp") else 0,
+                       "via": rng.choice(["name", "open", "path"]), "rid": len(readable)}
+                ops.append(rop)
+                readable.append((rop["rid"], c, cctx, cfields))
         return {"kind": "h5", "ops": ops}
 
     def generate(self, rng, n, tier):
         out = []
+        # copies and frames are stratified: classes x ways of copying / exporting are visited in turn
+        # (random start), so that a quick run meets every pair
+        kc, kf = rng.randrange(1000), rng.randrange(1000)
         for _ in range(n):
             r = rng.random()
-            if r < 0.4:
+            if r < 0.34:
                 out.append(self._gen_h5(rng))
             elif r < 0.52:
-                out.append(self._gen_copy(rng))
-            elif r < 0.6:
+                out.append(self._gen_copy(rng, kc))
+                kc += 1
+            elif r < 0.58:
                 out.append(self._gen_graph(rng))
-            elif r < 0.8:
-                out.append(self._gen_frame(rng))
+            elif r < 0.84:
+                out.append(self._gen_frame(rng, kf))
+                kf += 1
             else:
                 out.append(self._gen_vcf(rng))
         return out
 
     # ------------------------------------------------------------------ data frames / CSV
-    def _gen_frame(self, rng):
-        cls = rng.choice(["bvmat", "bvmat", "cmat", "vmat", "sgmap", "sgmap", "egmap", "algmod", "adlgmod"])
-        fields, ctx, grouped, shape = gen_obj(rng, cls, rich=1.0)
+    VM_COLS = {"vmat": ["female", "male"], "vmat3": ["recurrent", "female", "male"],
+               "vmat4": ["female2", "male2", "female1", "male1"]}
+
+    FRAME_ORDER = ["bvmat", "cmat", "vmat", "vmat3", "sgmap", "vmat4", "egmap", "algmod", "bvmat", "adlgmod", "vmat", "sgmap"]
+
+    def _gen_frame(self, rng, k=None):
+        if k is None:
+            k = rng.randrange(10 ** 6)
+        cls = self.FRAME_ORDER[k % len(self.FRAME_ORDER)]
+        rnd = k // len(self.FRAME_ORDER)
+        via = ["pandas", "csv"][rnd % 2]
+        hard = rng.random() < 0.5
+        fields, ctx, grouped, shape = gen_obj(rng, cls, rich=1.0, hard=hard, csv=(via == "csv"), extreme=False)
         opts = {}
+        ren = rng.random() < 0.4            # non-default column names, the same on both sides
+        nm = (lambda d, alt: rng.choice(alt) if ren else d)
         if cls == "bvmat":
             # a label array that is absent has no column: the matching option is `..._col = None`
             if rng.random() < 0.3:
                 fields.pop("taxa", None)
             if rng.random() < 0.3:
                 fields.pop("taxa_grp", None)
-            opts = {"taxa_col": "taxa" if "taxa" in fields else None,
+            opts = {"taxa_col": nm("taxa", ["taxa", "Taxon näme", "id"]) if "taxa" in fields else None,
                     "taxa_grp_col": rng.choice(["taxa_grp", "grp ü"]) if "taxa_grp" in fields else None}
         elif cls == "cmat":
             if rng.random() < 0.4:
                 fields.pop("taxa_grp", None)
             opts = {"taxa_col": rng.choice(["taxa", "näme"]),
-                    "taxa_grp_col": rng.choice(["taxa_grp", None]) if "taxa_grp" not in fields else "taxa_grp"}
-        elif cls == "vmat":
+                    "taxa_grp_col": rng.choice(["taxa_grp", None]) if "taxa_grp" not in fields else nm("taxa_grp", ["g", "taxa_grp"])}
+        elif cls in self.VM_COLS:
             # the long layout is canonical in label order: taxa and traits sorted (numpy.unique)
             n, t = shape
             srt = rng.random() < 0.65
@@ -767,84 +1466,119 @@ class C16(Prop):
                 fields.pop("taxa_grp", None)
             # unsorted labels: the read-back must be the same labelled data in sorted label order
             opts = {"grp": "taxa_grp" in fields, "sorted": srt}
+            if ren:
+                opts["cols"] = {c + "_col": rng.choice([c, c.upper(), "p_" + c]) for c in self.VM_COLS[cls]}
+                opts["cols"].update({"trait_col": rng.choice(["trait", "Trait ü"]), "variance_col": rng.choice(["variance", "σ²"])})
+                if opts["grp"]:
+                    opts["cols"].update({c + "_grp_col": "G" + c for c in self.VM_COLS[cls]})
         elif cls in ("sgmap", "egmap"):
             opts = {"units": rng.choice(["M", "cM", "Morgans", "centiMorgans"])}
             if cls == "egmap":
                 opts["name"] = "vrnt_name" in fields
                 opts["fncode"] = "vrnt_fncode" in fields
+            if ren:
+                opts["cols"] = {"vrnt_chrgrp_col": rng.choice(["chr", "chrom", "LG"]), "vrnt_phypos_col": rng.choice(["pos", "bp"]),
+                                "vrnt_genpos_col": rng.choice(["cM", "gen pos", "M"])}
+                if cls == "egmap":
+                    opts["cols"]["vrnt_stop_col"] = rng.choice(["stop", "end"])
         else:
             fields.pop("model_name", None)
             fields.pop("hyperparams", None)
             if "u_misc" not in fields:
                 q, pm, pa, t = shape
                 fields["u_misc"] = ds("f64", [0, t], [])
-        via = rng.choice(["pandas", "csv", "csv"]) if cls in ("sgmap", "egmap") else rng.choice(["pandas", "csv"])
-        return {"kind": "frame", "cls": cls, "fields": fields, "ctx": ctx, "via": via, "opts": opts}
+        if via == "csv" and rng.random() < 0.35:
+            opts["sep"] = rng.choice([";", "\t", "|"])
+        # export once, change the object in place, export again: the second export is what counts
+        if (rnd // 2) % 3 == 1:
+            opts["twice"] = True
+        var = self._gen_var(rng, cls, fields, shape, history=False)
+        var.pop("spline", None)
+        return {"kind": "frame", "cls": cls, "fields": fields, "ctx": ctx, "via": via, "opts": opts, "var": var}
+
+    TWICE_FIELD = {"bvmat": "mat", "cmat": "mat", "vmat": "mat", "vmat3": "mat", "vmat4": "mat", "algmod": "u_a",
+                   "adlgmod": "u_d", "sgmap": None, "egmap": None}
 
     def _impl_frame(self, case):
         M = _mods()
         cls, via, opts = case["cls"], case["via"], case["opts"]
-        o = build(cls, case["fields"], case.get("ctx", 0), False)
-        before = fields_of(cls, o)
+        o = build(cls, case["fields"], case.get("ctx", 0), False, case.get("var"))
         os.makedirs(TMP_ROOT, exist_ok=True)
         d = tempfile.mkdtemp(prefix="fr_", dir=TMP_ROOT)
         fn = os.path.join(d, "t.csv")
+        sepw = {"sep": opts["sep"]} if opts.get("sep") else {}
         try:
-            C = M[cls]
+            C = type(o)
             if cls == "bvmat":
                 kw = {"taxa_col": opts["taxa_col"], "taxa_grp_col": opts["taxa_grp_col"]}
-                if via == "pandas":
-                    r = C.from_pandas(o.to_pandas(unscale=True, **kw), **kw)
-                else:
-                    o.to_csv(fn, unscale=True, **kw)
-                    r = C.from_csv(fn, **kw)
-                extra = {"unscaled_src": enc_ds(o.unscale()), "unscaled_got": enc_ds(r.unscale())}
+                exp = (lambda: o.to_pandas(unscale=True, **kw)) if via == "pandas" else \
+                    (lambda: o.to_csv(fn, unscale=True, **kw, **sepw))
+                imp = (lambda df: C.from_pandas(df, **kw)) if via == "pandas" else (lambda _: C.from_csv(fn, **kw, **sepw))
             elif cls == "cmat":
                 kw = {"taxa_col": opts["taxa_col"], "taxa_grp_col": opts["taxa_grp_col"]}
-                if via == "pandas":
-                    r = C.from_pandas(o.to_pandas(**kw), **kw)
-                else:
-                    o.to_csv(fn, **kw)
-                    r = C.from_csv(fn, **kw)
-                extra = {}
-            elif cls == "vmat":
-                kw = {} if opts["grp"] else {"female_grp_col": None, "male_grp_col": None}
-                if via == "pandas":
-                    r = C.from_pandas(o.to_pandas(**kw), **kw)
-                else:
-                    o.to_csv(fn, **kw)
-                    r = C.from_csv(fn, **kw)
-                extra = {}
+                exp = (lambda: o.to_pandas(**kw)) if via == "pandas" else (lambda: o.to_csv(fn, **kw, **sepw))
+                imp = (lambda df: C.from_pandas(df, **kw)) if via == "pandas" else (lambda _: C.from_csv(fn, **kw, **sepw))
+            elif cls in self.VM_COLS:
+                kw = dict(opts.get("cols") or {})
+                if not opts["grp"]:
+                    kw.update({c + "_grp_col": None for c in self.VM_COLS[cls]})
+                exp = (lambda: o.to_pandas(**kw)) if via == "pandas" else (lambda: o.to_csv(fn, **kw, **sepw))
+                imp = (lambda df: C.from_pandas(df, **kw)) if via == "pandas" else (lambda _: C.from_csv(fn, **kw, **sepw))
             elif cls in ("sgmap", "egmap"):
-                kw = {"vrnt_genpos_units": opts["units"]}
+                kw = dict({"vrnt_genpos_units": opts["units"]}, **(opts.get("cols") or {}))
                 kr = dict(kw)
                 if cls == "egmap":
                     kr["vrnt_name_col"] = "name" if opts["name"] else None
                     kr["vrnt_fncode_col"] = "fncode" if opts["fncode"] else None
-                if via == "pandas":
-                    r = C.from_pandas(o.to_pandas(**kw), **kr)
-                else:
-                    o.to_csv(fn, **kw)
-                    r = C.from_csv(fn, **kr)
-                extra = {}
+                exp = (lambda: o.to_pandas(**kw)) if via == "pandas" else (lambda: o.to_csv(fn, **kw, **sepw))
+                imp = (lambda df: C.from_pandas(df, **kr)) if via == "pandas" else (lambda _: C.from_csv(fn, **kr, **sepw))
             else:
-                if via == "pandas":
-                    r = C.from_pandas_dict(o.to_pandas_dict())
-                else:
-                    names = {k: os.path.join(d, k + ".csv") for k in (["beta", "u_misc", "u_a"] +
-                                                                        (["u_d"] if cls == "adlgmod" else []))}
-                    o.to_csv_dict(names)
-                    r = C.from_csv_dict(names)
-                extra = {}
+                names = {k: os.path.join(d, k + ".csv") for k in (["beta", "u_misc", "u_a"] +
+                                                                    (["u_d"] if cls == "adlgmod" else []))}
+                exp = (lambda: o.to_pandas_dict()) if via == "pandas" else (lambda: o.to_csv_dict(names, **sepw))
+                imp = (lambda df: C.from_pandas_dict(df)) if via == "pandas" else (lambda _: C.from_csv_dict(names, **sepw))
+            if opts.get("twice"):
+                exp()
+                k = self.TWICE_FIELD.get(cls)
+                if k is not None and isinstance(getattr(o, k), numpy.ndarray) and getattr(o, k).size:
+                    a = getattr(o, k)
+                    a[...] = a * 2 + 1            # in place; exact on the generated values' grid or rounded once
+            before = fields_of(cls, o)
+            usrc = enc_ds(o.unscale()) if cls == "bvmat" else None
+            r = imp(exp())
+            extra = {"unscaled_src": usrc, "unscaled_got": enc_ds(r.unscale())} if cls == "bvmat" else {}
+            if cls in ("sgmap", "egmap"):
+                # a map is also what it interpolates: same (default) spline options on both sides
+                extra["probe_src"] = self._probe_map(o)
+                extra["probe_got"] = self._probe_map(r)
             return dict({"before": before, "got": fields_of(cls, r), "src_after": fields_of(cls, o),
                          "same_type": type(r) is type(o)}, **extra)
         finally:
             shutil.rmtree(d, ignore_errors=True)
 
+    @staticmethod
+    def _probe_map(g):
+        chr_ = numpy.asarray(g.vrnt_chrgrp)
+        pos = numpy.asarray(g.vrnt_phypos)
+        qc, qp = [], []
+        for c in numpy.unique(chr_):
+            ps = numpy.sort(pos[chr_ == c])
+            for x in list(ps) + [(int(a) + int(b)) // 2 for a, b in zip(ps, ps[1:])] + [int(ps[-1]) + 7]:
+                qc.append(int(c))
+                qp.append(int(x))
+        qc.append(int(chr_.max()) + 5)        # a chromosome the map does not have
+        qp.append(1)
+        import warnings
+        with warnings.catch_warnings():
+            warnings.simplefilter("ignore")
+            v = g.interp_genpos(numpy.array(qc), numpy.array(qp))
+        return [fenc(x) for x in v]
+
     # which fields a layout carries (everything else is not part of the format)
     FRAME_FIELDS = {
         "bvmat": ["taxa", "taxa_grp", "trait"], "cmat": ["mat", "taxa", "taxa_grp"],
-        "vmat": ["mat", "taxa", "taxa_grp", "trait"],
+        "vmat": ["mat", "taxa", "taxa_grp", "trait"], "vmat3": ["mat", "taxa", "taxa_grp", "trait"],
+        "vmat4": ["mat", "taxa", "taxa_grp", "trait"],
         "sgmap": ["vrnt_chrgrp", "vrnt_phypos", "vrnt_genpos"] + GMAP_META,
         "egmap": ["vrnt_chrgrp", "vrnt_phypos", "vrnt_stop", "vrnt_genpos", "vrnt_name", "vrnt_fncode"] + GMAP_META,
         "algmod": ["beta", "u_misc", "u_a", "trait"], "adlgmod": ["beta", "u_misc", "u_a", "u_d", "trait"],
@@ -852,16 +1586,20 @@ class C16(Prop):
 
     @staticmethod
     def _vmat_sorted(b):
-        """the same labelled variance matrix with taxa and traits in increasing label order"""
-        n, _, t = b["mat"]["sh"]
+        """the same labelled variance matrix with taxa and traits in increasing label order
+        (any number of taxa axes, traits last)"""
+        sh = b["mat"]["sh"]
+        n, t, k = sh[0], sh[-1], len(sh) - 1
         po = sorted(range(n), key=lambda i: b["taxa"]["v"][i])
-        to = sorted(range(t), key=lambda k: b["trait"]["v"][k])
-        v = b["mat"]["v"]
+        to = sorted(range(t), key=lambda j: b["trait"]["v"][j])
+        a = numpy.array(b["mat"]["v"], dtype=object).reshape(sh)
+        for ax in range(k):
+            a = numpy.take(a, po, axis=ax)
+        a = numpy.take(a, to, axis=k)
         out = dict(b)
-        out["mat"] = ds(b["mat"]["dt"], [n, n, t], [v[(po[i] * n + po[j]) * t + to[k]]
-                                                     for i in range(n) for j in range(n) for k in range(t)])
+        out["mat"] = ds(b["mat"]["dt"], sh, list(a.reshape(-1)))
         out["taxa"] = ds("str", [n], [b["taxa"]["v"][i] for i in po])
-        out["trait"] = ds("str", [t], [b["trait"]["v"][k] for k in to])
+        out["trait"] = ds("str", [t], [b["trait"]["v"][j] for j in to])
         if b.get("taxa_grp"):
             out["taxa_grp"] = ds(b["taxa_grp"]["dt"], [n], [b["taxa_grp"]["v"][i] for i in po])
         return out
@@ -895,9 +1633,15 @@ class C16(Prop):
             t = b["beta"]["sh"][1]
             return [{"op": "c16.frame_model", "ntrait": t, "trait": lst("trait"),
                      "blocks": [{"k": k, "rows": self._nest(b[k]["v"], b[k]["sh"])} for k in keys]}]
+        kway = {"op": "c16.frame_vmatk", "k": VM_AXES.get(cls, 0), "flat": b["mat"]["v"] if b.get("mat") else [],
+                "taxa": lst("taxa"), "taxa_grp": lst("taxa_grp"), "trait": lst("trait"),
+                "with_grp": case["opts"].get("grp", False)}
         if cls == "vmat":
+            # the two-way model (nested lists) and the k-way model (index-tuple function) at k = 2
             return [{"op": "c16.frame_vmat", "mat": self._nest(b["mat"]["v"], b["mat"]["sh"]), "taxa": lst("taxa"),
-                     "taxa_grp": lst("taxa_grp"), "trait": lst("trait"), "with_grp": case["opts"]["grp"]}]
+                     "taxa_grp": lst("taxa_grp"), "trait": lst("trait"), "with_grp": case["opts"]["grp"]}, kway]
+        if cls in ("vmat3", "vmat4"):
+            return [kway]
         return []
 
     @staticmethod
@@ -908,8 +1652,39 @@ class C16(Prop):
         if a["dt"] != b["dt"] or a["sh"] != b["sh"]:
             return False
         if a["dt"] in ("f64", "f32"):
-            return canon.close_enc(a["v"], b["v"], rel=1e-9, abs_=1e-12)
+            # text and unit conversions round: a few ulps, relative to the value itself (no absolute slack:
+            # 1e-8 must not come back as 1.0001e-8, 25000.0000001 not as 25000)
+            return fclose(a["v"], b["v"], rel=1e-12, abs_=0)
         return a["v"] == b["v"]
+
+    @staticmethod
+    def _cols_close(a, b, n, t, tol=1e-12, floor=None):
+        """two (n,t) matrices given flat: equal to `tol` relative to the magnitude of the COLUMN — the
+        breeding-value layout re-centres and re-scales every trait column on the way in, so a value is
+        only kept to rounding at the scale of its column (250000007.125 next to 7.250000013)"""
+        if len(a) != n * t or len(b) != n * t:
+            return False
+        A, B = [Fraction(x) for x in a], [Fraction(x) for x in b]
+        tol = Fraction(tol)
+        if any((abs(x) >= F_NAN or abs(y) >= F_NAN) and x != y for x, y in zip(A, B)):
+            return False
+        for j in range(t):
+            ca = [A[i * t + j] for i in range(n)]
+            cb = [B[i * t + j] for i in range(n)]
+            m = max([abs(x) for x in ca] + [abs(x) for x in cb] + [0] + ([floor[j]] if floor else []))
+            if any(abs(x - y) > tol * m for x, y in zip(ca, cb)):
+                return False
+        return True
+
+    @staticmethod
+    def _bv_floor(b):
+        """magnitude of the operands of `mat * scale + location` per trait: the float result is only good to
+        rounding at THAT scale when the two terms cancel (model = exact rationals)"""
+        n, t = b["mat"]["sh"]
+        mat = [Fraction(x) for x in b["mat"]["v"]]
+        loc = [Fraction(x) for x in b["location"]["v"]]
+        sc = [Fraction(x) for x in b["scale"]["v"]]
+        return [max([abs(loc[j])] + [abs(mat[i * t + j] * sc[j]) for i in range(n)]) for j in range(t)]
 
     def _judge_frame(self, case, obs, answers):
         cls = case["cls"]
@@ -918,13 +1693,20 @@ class C16(Prop):
         if not spec:
             notes.append("type changed or exporting modified the source")
         want = obs["before"]
-        if cls == "vmat" and not case["opts"].get("sorted", True):
+        if cls in self.VM_COLS and not case["opts"].get("sorted", True):
             want = self._vmat_sorted(want)
         for k in self.FRAME_FIELDS[cls]:
             if not self._ds_close(want[k], obs["got"][k]):
                 spec = False
                 notes.append(f"{k}: wrote {json.dumps(obs['before'][k])[:160]} read {json.dumps(obs['got'][k])[:160]}")
-        if cls == "bvmat" and not self._ds_close(obs["unscaled_src"], obs["unscaled_got"]):
+        if cls in ("sgmap", "egmap") and not fclose(obs["probe_src"], obs["probe_got"], rel=1e-9, abs_=1e-12):
+            spec = False
+            notes.append(f"interpolated positions: source {json.dumps(obs['probe_src'])[:200]} "
+                         f"read-back {json.dumps(obs['probe_got'])[:200]}")
+        if cls == "bvmat" and not (obs["unscaled_src"]["sh"] == obs["unscaled_got"]["sh"] and
+                                   obs["unscaled_src"]["dt"] == obs["unscaled_got"]["dt"] and
+                                   self._cols_close(obs["unscaled_src"]["v"], obs["unscaled_got"]["v"],
+                                                    *obs["unscaled_src"]["sh"])):
             spec = False
             notes.append(f"breeding values: wrote {json.dumps(obs['unscaled_src'])[:200]} "
                          f"read {json.dumps(obs['unscaled_got'])[:200]}")
@@ -937,7 +1719,8 @@ class C16(Prop):
             ok = ("err" not in m and m["taxa"] == (g["taxa"]["v"] if g["taxa"] else None)
                   and m["taxa_grp"] == (g["taxa_grp"]["v"] if g["taxa_grp"] else None)
                   and [str(x) for x in m["trait"]] == [str(x) for x in (g["trait"]["v"] if g["trait"] else [])]
-                  and canon.close_enc(m["cols"], cols_impl, rel=1e-9, abs_=1e-12))
+                  and self._cols_close([m["cols"][j][i] for i in range(n) for j in range(t)],
+                                       obs["unscaled_got"]["v"], n, t, 1e-9, self._bv_floor(obs["before"])))
             if not ok:
                 corr = False
                 notes.append(f"model={json.dumps(m)[:300]} impl labels/values={json.dumps(g)[:300]}")
@@ -945,12 +1728,21 @@ class C16(Prop):
             m = answers[0]["ok"]
             g = obs["got"]
             ok = ("err" not in m and m["chrgrp"] == g["vrnt_chrgrp"]["v"] and m["phypos"] == g["vrnt_phypos"]["v"]
-                  and canon.close_enc(m["genpos"], g["vrnt_genpos"]["v"], rel=1e-9, abs_=1e-12))
+                  and fclose(m["genpos"], g["vrnt_genpos"]["v"], rel=1e-9, abs_=1e-12))
             if not ok:
                 corr = False
                 notes.append(f"model={json.dumps(m)[:300]} impl={json.dumps(g)[:300]}")
         flat = lambda x: [e for r in x for e in (flat(r) if isinstance(r, list) else [r])]
         vals = lambda k: (obs["got"][k]["v"] if obs["got"].get(k) else None)
+        if cls in self.VM_COLS:
+            mk = answers[-1]["ok"]
+            g = obs["got"]
+            okk = ("err" not in mk and mk["taxa"] == vals("taxa") and mk["taxa_grp"] == vals("taxa_grp")
+                   and mk["trait"] == vals("trait") and None not in mk["flat"]
+                   and not str(g["mat"]["dt"]).startswith("other") and fclose(mk["flat"], g["mat"]["v"], rel=1e-9, abs_=1e-12))
+            if not okk:
+                corr = False
+                notes.append(f"k-way model={json.dumps(mk)[:300]} impl={json.dumps(g)[:300]}")
         if cls in ("cmat", "egmap", "algmod", "adlgmod", "vmat"):
             m = answers[0]["ok"]
             g = obs["got"]
@@ -958,21 +1750,21 @@ class C16(Prop):
                 ok = False
             elif cls == "cmat":
                 ok = (m["taxa"] == vals("taxa") and m["taxa_grp"] == vals("taxa_grp")
-                      and canon.close_enc(flat(m["mat"]), g["mat"]["v"], rel=1e-9, abs_=1e-12))
+                      and fclose(flat(m["mat"]), g["mat"]["v"], rel=1e-9, abs_=1e-12))
             elif cls == "egmap":
                 ok = (m["chrgrp"] == vals("vrnt_chrgrp") and m["phypos"] == vals("vrnt_phypos")
                       and m["stop"] == vals("vrnt_stop") and m["name"] == vals("vrnt_name")
                       and m["fncode"] == vals("vrnt_fncode")
-                      and canon.close_enc(m["genpos"], g["vrnt_genpos"]["v"], rel=1e-9, abs_=1e-12))
+                      and fclose(m["genpos"], g["vrnt_genpos"]["v"], rel=1e-9, abs_=1e-12))
             elif cls == "vmat":
                 mm = flat(m["mat"])
                 ok = (m["taxa"] == vals("taxa") and m["taxa_grp"] == vals("taxa_grp") and m["trait"] == vals("trait")
                       and None not in mm and not str(g["mat"]["dt"]).startswith("other")
-                      and canon.close_enc(mm, g["mat"]["v"], rel=1e-9, abs_=1e-12))
+                      and fclose(mm, g["mat"]["v"], rel=1e-9, abs_=1e-12))
             else:
                 ok = [str(x) for x in m["trait"]] == [str(x) for x in (vals("trait") or [])]
                 for blk in m["blocks"]:
-                    ok = ok and canon.close_enc(flat(blk["rows"]), g[blk["k"]]["v"], rel=1e-9, abs_=1e-12) \
+                    ok = ok and fclose(flat(blk["rows"]), g[blk["k"]]["v"], rel=1e-9, abs_=1e-12) \
                         and [len(blk["rows"])] == g[blk["k"]]["sh"][:1]
             if not ok:
                 corr = False
@@ -989,9 +1781,22 @@ class C16(Prop):
         ids = _perm(rng, ["m%d" % i for i in range(20)] + ["mé", "ß9", "rs12"])[:p]
         recs = []
         for j in range(p):
-            amax = rng.choice([1, 1, 2, 3])
-            recs.append({"chrom": rng.randint(1, nchr), "pos": rng.choice([10, 10, 20, 300, 4000, rng.randint(1, 10 ** 6)]),
-                         "id": ids[j], "calls": [[rng.randint(0, amax), rng.randint(0, amax)] for _ in range(n)]})
+            # what kind of site: SNP, multi-allelic SNP, insertion / deletion, symbolic allele, no alternative at all;
+            # filtered or low-quality records, extra INFO / FORMAT fields — all of it is "VCF contents"
+            ref, alt = rng.choice([("A", ["C"]), ("A", ["C", "G"]), ("A", ["C", "G", "T"]), ("AT", ["A"]), ("G", ["GTT", "GA"]),
+                                   ("C", ["<DEL>"]), ("T", []), ("ACG", ["A", "ACGCG", "TCG"]), ("N", ["A", "C", "G"])])
+            amax = len(alt)
+            rec = {"chrom": rng.randint(1, nchr), "pos": rng.choice([10, 10, 20, 300, 4000, rng.randint(1, 10 ** 6)]),
+                   "id": ids[j], "calls": [[rng.randint(0, amax), rng.randint(0, amax)] for _ in range(n)],
+                   "ref": ref, "alt": alt}
+            if rng.random() < 0.4:
+                rec["filter"] = rng.choice(["PASS", "q10"])
+                rec["qual"] = rng.choice(["30", "3.5", "0"])
+            if rng.random() < 0.3:
+                rec["info"] = "DP=%d" % rng.randint(0, 99)
+            if rng.random() < 0.3:
+                rec["fmt"] = rng.choice(["GT:DP", "GT:GQ:DP"])
+            recs.append(rec)
         # a fifth of the files have records without identifier (`.`); one file in twelve names a
         # chromosome with something that is not an integer literal (must be refused)
         if rng.random() < 0.2:
@@ -1000,28 +1805,60 @@ class C16(Prop):
                     r["id"] = None
         if rng.random() < 0.08:
             recs[rng.randrange(p)]["chrom"] = rng.choice(["X", "chr1", "1A", "Ⅷ", "2.0"])
-        return {"kind": "vcf", "samples": samples, "recs": recs, "group": rng.random() < 0.6,
-                "phased": rng.random() < 0.6}
+        case = {"kind": "vcf", "samples": samples, "recs": recs, "group": rng.random() < 0.6,
+                "phased": rng.random() < 0.6, "gz": rng.random() < 0.15}
+        # one file in eight is OUTSIDE the property's quantifier ("phased diploid calls"): some calls use the
+        # unphased separator or have a missing allele.  The code takes the two allele columns as cyvcf2
+        # delivers them (missing = -1) and ignores the phase flag; only model = code is checked there.
+        if rng.random() < 0.125:
+            case["loose"] = True
+            for r in recs:
+                for c in r["calls"]:
+                    q = rng.random()
+                    if q < 0.3:
+                        c.append("/")
+                    elif q < 0.4:
+                        c[rng.randrange(2)] = -1
+                    elif q < 0.45:
+                        c[0] = c[1] = -1
+                        c.append("/")
+        return case
 
     @staticmethod
     def _vcf_text(case):
         chroms = sorted({str(r["chrom"]) for r in case["recs"]})
         lines = ["##fileformat=VCFv4.2"] + ["##contig=<ID=%s>" % c for c in chroms]
+        lines.append('##ALT=<ID=DEL,Description="Deletion">')
+        lines.append('##FILTER=<ID=q10,Description="Quality below 10">')
+        lines.append('##INFO=<ID=DP,Number=1,Type=Integer,Description="Total depth">')
         lines.append('##FORMAT=<ID=GT,Number=1,Type=String,Description="Genotype">')
+        lines.append('##FORMAT=<ID=DP,Number=1,Type=Integer,Description="Depth">')
+        lines.append('##FORMAT=<ID=GQ,Number=1,Type=Integer,Description="Genotype quality">')
         lines.append("\t".join(["#CHROM", "POS", "ID", "REF", "ALT", "QUAL", "FILTER", "INFO", "FORMAT"] + case["samples"]))
-        for r in case["recs"]:
-            lines.append("\t".join([str(r["chrom"]), str(r["pos"]), r["id"] if r["id"] is not None else ".", "A", "C,G,T", ".", ".", ".", "GT"]
-                                   + ["%d|%d" % (a, b) for a, b in r["calls"]]))
+        for j, r in enumerate(case["recs"]):
+            alt = r.get("alt", ["C", "G", "T"])
+            fmt = r.get("fmt", "GT")
+            extra = "".join(":%d" % (7 + j) for _ in fmt.split(":")[1:])
+            lines.append("\t".join([str(r["chrom"]), str(r["pos"]), r["id"] if r["id"] is not None else ".",
+                                    r.get("ref", "A"), ",".join(alt) if alt else ".", r.get("qual", "."),
+                                    r.get("filter", "."), r.get("info", "."), fmt]
+                                   + ["%s%s%s%s" % ("." if c[0] < 0 else c[0], c[2] if len(c) > 2 else "|",
+                                                    "." if c[1] < 0 else c[1], extra) for c in r["calls"]]))
         return "\n".join(lines) + "\n"
 
     def _impl_vcf(self, case):
         M = _mods()
         os.makedirs(TMP_ROOT, exist_ok=True)
         d = tempfile.mkdtemp(prefix="vcf_", dir=TMP_ROOT)
-        fn = os.path.join(d, "in.vcf")
+        fn = os.path.join(d, "in.vcf.gz" if case.get("gz") else "in.vcf")
         try:
-            with open(fn, "w", encoding="utf-8") as f:
-                f.write(self._vcf_text(case))
+            if case.get("gz"):
+                import gzip
+                with gzip.open(fn, "wt", encoding="utf-8") as f:
+                    f.write(self._vcf_text(case))
+            else:
+                with open(fn, "w", encoding="utf-8") as f:
+                    f.write(self._vcf_text(case))
             cls = M["pgmat"] if case["phased"] else M["gmat"]
             bad = [r["chrom"] for r in case["recs"] if not isinstance(r["chrom"], int)]
             try:
@@ -1035,6 +1872,8 @@ class C16(Prop):
             shutil.rmtree(d, ignore_errors=True)
 
     def _req_vcf(self, case, obs):
+        if case.get("loose"):
+            case = dict(case, recs=[dict(r, calls=[c[:2] for c in r["calls"]]) for r in case["recs"]])
         f = obs["fields"]
         if f is None:
             return [{"op": "c16.vcf", "samples": case["samples"], "recs": case["recs"], "group": case["group"]}]
@@ -1093,6 +1932,8 @@ class C16(Prop):
                  f["vrnt_chrgrp"] and f["vrnt_chrgrp"]["dt"] == "i64" and
                  f["vrnt_phypos"] and f["vrnt_phypos"]["dt"] == "i64")
         spec = bool(sp["ok"]) and bool(dt_ok)
+        if case.get("loose"):
+            spec = True          # unphased / missing calls: outside the quantifier, correspondence only
         if not spec:
             notes.append(f"spec: {sp['detail']} dtypes_ok={bool(dt_ok)}")
         nontriv = n >= 2 and p >= 2 and len({(r["chrom"], r["pos"]) for r in case["recs"]}) >= 2
@@ -1102,20 +1943,25 @@ class C16(Prop):
 
     # ------------------------------------------------------------------ object graphs / copy.deepcopy
     def _gen_graph(self, rng):
-        cls = rng.choice(["ge", "ge", "algmod", "adlgmod", "bvmat", "bvmat", "pgmat", "vmat", "sgmap"])
+        cls = rng.choice(["ge", "ge", "algmod", "adlgmod", "bvmat", "bvmat", "pgmat", "vmat", "sgmap",
+                          "tp", "gmat", "cmat", "egmap", "vmat3", "vmat4"])
         fields, ctx, grouped, _ = gen_obj(rng, cls, rich=rng.choice([0.5, 1.0]))
         # aliasing inside the source: two attributes holding one and the same array
         alias = rng.choice([None, None, "pair"])
         return {"kind": "graph", "cls": cls, "fields": fields, "ctx": ctx, "grouped": grouped, "alias": alias,
-                "how": rng.choice(["copy.deepcopy", "obj.deepcopy"])}
+                "how": rng.choice(["copy.deepcopy", "obj.deepcopy"]),
+                "var": {"layout": rng.choice(LAYOUTS)} if rng.random() < 0.4 else {}}
 
     ALIAS_PAIRS = {"bvmat": ("scale", "location"), "algmod": ("u_a", "u_misc"), "adlgmod": ("u_a", "u_d"),
                    "ge": ("var_env", "var_err"), "pgmat": ("taxa_grp_name", "taxa_grp_len"),
-                   "vmat": ("taxa_grp_name", "taxa_grp_len"), "sgmap": ("vrnt_chrgrp_stix", "vrnt_chrgrp_len")}
+                   "vmat": ("taxa_grp_name", "taxa_grp_len"), "sgmap": ("vrnt_chrgrp_stix", "vrnt_chrgrp_len"),
+                   "gmat": ("vrnt_chrgrp_name", "vrnt_chrgrp_len"), "cmat": ("taxa_grp_name", "taxa_grp_len"),
+                   "egmap": ("vrnt_chrgrp_stix", "vrnt_chrgrp_len"), "vmat3": ("taxa_grp_stix", "taxa_grp_spix"),
+                   "vmat4": ("taxa_grp_name", "taxa_grp_len")}
 
     def _impl_graph(self, case):
         cls = case["cls"]
-        o = build(cls, case["fields"], case.get("ctx", 0), case.get("grouped", False))
+        o = build(cls, case["fields"], case.get("ctx", 0), case.get("grouped", False), case.get("var"))
         if case.get("alias") and cls in self.ALIAS_PAIRS:
             a, b = self.ALIAS_PAIRS[cls]
             va = getattr(o, a)
@@ -1161,28 +2007,136 @@ class C16(Prop):
         return {"corr": corr, "spec": spec, "nontrivial": obs["ncells"] >= 4,
                 "detail": f"graph[{case['cls']},{case['how']},alias={case.get('alias')}] " + "; ".join(notes)[:1200]}
 
-    def _gen_copy(self, rng):
-        cls = rng.choice(list(CLASSES))
-        fields, ctx, grouped, _ = gen_obj(rng, cls, rich=rng.choice([0.3, 0.7, 1.0, 1.0]))
-        return {"kind": "copy", "cls": cls, "fields": fields, "ctx": ctx, "grouped": grouped,
-                "how": rng.choice(["copy.copy", "copy.deepcopy", "copy.deepcopy", "obj.copy", "obj.deepcopy"])}
+    SPLINE_KINDS = ["linear", "nearest", "zero", "previous", "next", "slinear", "quadratic", "cubic"]
+
+    def _gen_var(self, rng, cls, fields, shape, layouts=True, history=True):
+        """how the object is brought about: memory layout of the arrays handed to the constructor, a
+        concrete subclass, spline options of a genetic map, and a short history of in-place steps"""
+        var = {}
+        if layouts and rng.random() < 0.45:
+            var["layout"] = rng.choice(LAYOUTS[1:])
+        if cls in PYCLS and rng.random() < 0.4:
+            var["pycls"] = rng.choice(PYCLS[cls])
+        if cls in ("sgmap", "egmap"):
+            chrs = fields["vrnt_chrgrp"]["v"]
+            least = min(chrs.count(c) for c in set(chrs))
+            mode = rng.choice(["auto", "auto", "user", "user", "none"])
+            kinds = self.SPLINE_KINDS[:5] + (["slinear"] if least >= 2 else []) + (["quadratic"] if least >= 3 else []) \
+                + (["cubic"] if least >= 4 else [])
+            sp = {"mode": mode, "kind": rng.choice(self.SPLINE_KINDS if mode == "user" else kinds),
+                  "fill": rng.choice([None, None, "0", "-1/4", "nan"])}
+            if sp["fill"] == "nan":
+                sp["fill"] = None if sp["kind"] in ("slinear", "quadratic", "cubic") and False else "nan"
+            if mode == "user":
+                sp["warp"] = rng.choice(["3/2", "1/2", "2"])
+            var["spline"] = sp
+        if history and rng.random() < 0.5:
+            var["prep"] = self._gen_prep(rng, cls, fields, shape)
+        return var
+
+    def _gen_prep(self, rng, cls, fields, shape):
+        """in-place steps between construction and the save / copy: statistics that may prime caches,
+        sorting / grouping / pruning, buffers overwritten in place, attributes re-assigned"""
+        steps = []
+        has = lambda k: fields.get(k) is not None
+        if cls in ("sgmap", "egmap"):
+            p = shape[0]
+            opts = ["ungroup", "group", "sort"]
+            if p >= 3:
+                opts += ["remove", "remove", "select", "select"]
+            opts += ["reorder"]
+            for _ in range(rng.randint(1, 2)):
+                k = rng.choice(opts)
+                if k == "remove":
+                    steps.append({"t": "call", "k": "remove", "a": [[rng.randrange(p)]]})
+                    p -= 1
+                elif k == "select":
+                    keep = sorted(rng.sample(range(p), max(2, p - 1)))
+                    steps.append({"t": "call", "k": "select", "a": [keep]})
+                    p = len(keep)
+                elif k == "reorder":
+                    steps.append({"t": "call", "k": "reorder", "a": [_perm(rng, range(p))]})
+                else:
+                    steps.append({"t": "call", "k": k})
+                if p < 3 and "remove" in opts:
+                    opts = [o for o in opts if o not in ("remove", "select")]
+            return steps
+        arrays = [k for k in CLASSES[cls]["ctor"] if has(k) and fields[k].get("sh")]
+        opts = []
+        if arrays:
+            opts += [("bump", k) for k in arrays if k not in ("scale", "nrep", "var_env", "var_rep", "var_err")]
+        if cls in ("pgmat", "gmat", "bvmat", "cmat", "vmat", "vmat3", "vmat4"):
+            if has("taxa"):
+                opts += [("call", "sort_taxa"), ("relabel", "taxa")]
+            if has("taxa_grp"):
+                opts += [("call", "group_taxa")]
+            if has("taxa"):
+                opts += [("none", "taxa")]
+        if cls in ("pgmat", "gmat"):
+            if has("vrnt_chrgrp") and has("vrnt_phypos"):
+                opts += [("call", "sort_vrnt"), ("call", "group_vrnt")]
+            opts += [("call", "afreq"), ("call", "maf")]
+        if cls == "bvmat":
+            opts += [("call", "tmean"), ("call", "tstd"), ("call", "unscale")]
+            if has("trait"):
+                opts += [("relabel", "trait")]
+        if cls in ("algmod", "adlgmod") and has("hyperparams"):
+            opts += [("hp", "hyperparams")]
+        if not opts:
+            return steps
+        for _ in range(rng.randint(1, 2)):
+            t, k = rng.choice(opts)
+            if t == "bump":
+                steps.append({"t": "bump", "k": k})
+            elif t == "call":
+                steps.append({"t": "call", "k": k})
+            elif t == "none":
+                steps.append({"t": "set", "k": k, "v": None})
+                opts = [o for o in opts if o[1] not in ("sort_taxa", k)]
+            elif t == "relabel":
+                n = fields[k]["sh"][0]
+                steps.append({"t": "set", "k": k, "v": ds("str", [n], _labels(rng, NAMES, n, True, True))})
+            elif t == "hp":
+                steps.append({"t": "set", "k": k, "v": {"dict": {"z": ds("f64", [3], [1, 2, "1/2"]),
+                                                                "s": ds("str", [], ["Zoe\u0308"])}}})
+        return steps
+
+    COPY_HOWS = ["copy.copy", "copy.deepcopy", "obj.deepcopy", "obj.copy", "copy.deepcopy"]
+
+    def _gen_copy(self, rng, k=None):
+        order = list(CLASSES) + ["sgmap"]
+        if k is None:
+            k = rng.randrange(10 ** 6)
+        cls = order[k % len(order)]
+        how = self.COPY_HOWS[(k // len(order)) % 5]
+        hard = rng.random() < 0.5
+        fields, ctx, grouped, shape = gen_obj(rng, cls, rich=rng.choice([0.3, 0.7, 1.0, 1.0]), hard=hard, hardf=False,
+                                              meta=True)
+        return {"kind": "copy", "cls": cls, "fields": fields, "ctx": ctx, "grouped": grouped, "how": how,
+                "var": self._gen_var(rng, cls, fields, shape)}
 
     def _impl_copy(self, case):
         cls = case["cls"]
-        o = build(cls, case["fields"], case.get("ctx", 0), case.get("grouped", False))
+        o = build(cls, case["fields"], case.get("ctx", 0), case.get("grouped", False), case.get("var"))
         before = fields_of(cls, o)
+        st0 = state_of(o)
         how = case["how"]
+        deep = "deep" in how
         c = {"copy.copy": lambda: pycopy.copy(o), "copy.deepcopy": lambda: pycopy.deepcopy(o),
              "obj.copy": lambda: o.copy(), "obj.deepcopy": lambda: o.deepcopy()}[how]()
         after_copying = fields_of(cls, o)
         copy_fields = fields_of(cls, c)
+        # generic observable state: every attribute, nested objects, interpolators by behaviour
+        d_copy = diff_state(st0, state_of(c))
+        d_src = diff_state(st0, state_of(o))
+        shared_paths = shared_cells(o, c) if deep else []
         ao, ac = arrays_of(cls, o), arrays_of(cls, c)
         shared = any(numpy.shares_memory(x, y) for _, x in ao for _, y in ac)
         same_obj = c is o
         dict_same = any(isinstance(getattr(o, k), dict) and getattr(o, k) is getattr(c, k)
                         for k in CLASSES[cls]["fields"])
         extra_shared = False
-        if cls == "ge":        # the bound genomic model is part of the protocol's state
+        if cls in ("ge", "tp"):        # the bound genomic model is part of the protocol's state
             extra_shared = (c.gpmod is o.gpmod) or any(
                 numpy.shares_memory(getattr(c.gpmod, k), getattr(o.gpmod, k)) for k in ("beta", "u_misc", "u_a"))
         seen = set()
@@ -1190,10 +2144,23 @@ class C16(Prop):
             if id(a) not in seen:
                 seen.add(id(a))
                 bump_inplace(a)
+        src_after, copy_after = fields_of(cls, o), fields_of(cls, c)
+        # every array and every dictionary of the copy is changed: the source must not move (deep);
+        # then every array and dictionary of the source: the copy must not move
+        d_indep = d_indep2 = None
+        ncell = 0
+        if deep:
+            ncell = mutate_all(c, "__verif_copy__")
+            d_indep = diff_state(st0, state_of(o))
+            st_c = state_of(c)
+            mutate_all(o, "__verif_src__")
+            d_indep2 = diff_state(st_c, state_of(c))
         return {"before": before, "after_copying": after_copying, "copy": copy_fields, "shared": bool(shared),
                 "same_obj": same_obj, "dict_same": bool(dict_same), "extra_shared": bool(extra_shared),
-                "same_type": type(c) is type(o), "narr": len(ac),
-                "src_after": fields_of(cls, o), "copy_after": fields_of(cls, c)}
+                "same_type": type(c) is type(o), "narr": len(ac), "ncell": ncell,
+                "state_diff_copy": d_copy, "state_diff_src": d_src, "shared_paths": shared_paths[:6],
+                "indep_diff": d_indep, "indep_diff2": d_indep2,
+                "src_after": src_after, "copy_after": copy_after}
 
     def _req_copy(self, case, obs):
         deep = "deep" in case["how"]
@@ -1204,22 +2171,25 @@ class C16(Prop):
     def _judge_copy(self, case, obs, answers):
         m, eq_copy, eq_src = answers[0]["ok"], answers[1]["ok"], answers[2]["ok"]
         deep = "deep" in case["how"]
-        notes = []
+        notes, cnotes = [], []
         corr = True
         for k in ("copy", "src_after", "copy_after"):
             if not self._same_obj(m[k], obs[k]):
                 corr = False
-                notes.append(f"{k}: model={json.dumps(m[k])[:200]} impl={json.dumps(obs[k])[:200]}")
+                cnotes.append(f"{k}: model={json.dumps(m[k])[:200]} impl={json.dumps(obs[k])[:200]}")
         if bool(m["shared"]) != obs["shared"]:
             corr = False
-            notes.append(f"shared buffers: model={m['shared']} impl={obs['shared']}")
+            cnotes.append(f"shared buffers: model={m['shared']} impl={obs['shared']}")
         spec = True
         if not eq_copy["ok"] or not obs["same_type"]:
             spec = False
             notes.append(f"the copy differs from its source in {eq_copy['diff']} (same type: {obs['same_type']})")
-        if obs["after_copying"] != obs["before"] or obs["same_obj"]:
+        if obs["after_copying"] != obs["before"] or obs["same_obj"] or obs["state_diff_src"]:
             spec = False
-            notes.append("copying changed the source or returned the source itself")
+            notes.append(f"copying changed the source or returned the source itself ({obs['state_diff_src']})")
+        if obs["state_diff_copy"]:
+            spec = False
+            notes.append(f"the copy is not observably equal to its source at {obs['state_diff_copy']}")
         if deep:
             if obs["shared"] or obs["dict_same"] or obs["extra_shared"]:
                 spec = False
@@ -1228,14 +2198,22 @@ class C16(Prop):
             if not eq_src["ok"]:
                 spec = False
                 notes.append(f"mutating the deep copy changed the source in {eq_src['diff']}")
+            if obs["shared_paths"]:
+                spec = False
+                notes.append(f"deep copy shares mutable state with its source: {obs['shared_paths']}")
+            if obs["indep_diff"] or obs["indep_diff2"]:
+                spec = False
+                notes.append(f"mutation leaks between deep copy and source: source moved at {obs['indep_diff']}, "
+                             f"copy moved at {obs['indep_diff2']}")
         return {"corr": corr, "spec": spec, "nontrivial": deep and obs["narr"] >= 2,
-                "detail": f"copy[{case['cls']},{case['how']}] " + "; ".join(notes)[:1200]}
+                "detail": f"copy[{case['cls']},{case['how']}] " + "; ".join(notes + cnotes)[:1200]}
 
     # ------------------------------------------------------------------ implementation
     def run_impl(self, case):
         return getattr(self, "_impl_" + case["kind"])(case)
 
     def _impl_h5(self, case):
+        import pathlib
         M = _mods()
         os.makedirs(TMP_ROOT, exist_ok=True)
         d = tempfile.mkdtemp(prefix="h5_", dir=TMP_ROOT)
@@ -1243,47 +2221,76 @@ class C16(Prop):
         res = []
         last = {}               # location -> index of the last write that did not raise
         ctxs = {}
+        live = {}               # write id -> the live object that was written
+        got_live = {}           # read id -> the live object that was read
+        snap = {}               # location -> (concrete class, generic state of the object when it was written)
+
+        def read(C, group, via, kw):
+            if via == "open":
+                with M["h5py"].File(fn, "r") as h5:
+                    return C.from_hdf5(h5, group, **kw)
+            return C.from_hdf5(pathlib.Path(fn) if via == "path" else fn, group, **kw)
+
+        def read_op(cls, group, ctx, via):
+            loc = norm_group(group)
+            kw = {"gpmod": _gpmod(ctx)} if cls in ("ge", "tp") else {}
+            C, st = snap.get(loc, (M[cls], None))
+            if not (isinstance(C, type) and issubclass(C, M[cls])):
+                C, st = M[cls], None
+            try:
+                got = read(C, group, via, kw)
+            except Exception as e:
+                return None, {"got": None, "raised": f"{type(e).__name__}: {e}"[:200]}
+            out = {"got": fields_of(cls, got), "raised": None, "same_type": type(got) is C}
+            if st is not None:
+                out["state_diff"] = diff_state(st, state_of(got))
+            return got, out
+
         try:
             for i, op in enumerate(case["ops"]):
                 loc = norm_group(op["group"])
                 if op["t"] == "w":
-                    obj = build(op["cls"], op["fields"], op.get("ctx", 0), op.get("grouped", False))
-                    want = fields_of(op["cls"], obj)
                     try:
-                        if op.get("open"):
+                        if "reuse" in op:
+                            obj = live[op["reuse"]]
+                        elif "from_read" in op:
+                            obj = got_live[op["from_read"]]
+                        else:
+                            obj = build(op["cls"], op["fields"], op.get("ctx", 0), op.get("grouped", False), op.get("var"))
+                        for e in op.get("edit") or []:
+                            apply_edit(obj, e)
+                    except KeyError:
+                        res.append({"t": "w", "want": None, "raised": "skipped: the object of an earlier step is missing"})
+                        continue
+                    live[op.get("id", i)] = obj
+                    want = fields_of(op["cls"], obj)
+                    st = state_of(obj)
+                    via = op.get("via", "open" if op.get("open") else "name")
+                    try:
+                        if via == "open":
                             with M["h5py"].File(fn, "a") as h5:
                                 obj.to_hdf5(h5, op["group"], overwrite=op["ow"])
                         else:
-                            obj.to_hdf5(fn, op["group"], overwrite=op["ow"])
-                        res.append({"t": "w", "want": want, "raised": None})
+                            obj.to_hdf5(pathlib.Path(fn) if via == "path" else fn, op["group"], overwrite=op["ow"])
+                        res.append({"t": "w", "want": want, "raised": None,
+                                    "src_diff": diff_state(st, state_of(obj))})
                         last[loc] = i
                         ctxs[loc] = op.get("ctx", 0)
+                        snap[loc] = (type(obj), st)
                     except Exception as e:
                         res.append({"t": "w", "want": want, "raised": f"{type(e).__name__}: {e}"[:200]})
                 else:
-                    kw = {}
                     ctx = ctxs.get(loc, op.get("ctx", 0))     # the model bound to the protocol stored there
-                    if op["cls"] == "ge":
-                        kw["gpmod"] = _gpmod(ctx)
-                    try:
-                        got = M[op["cls"]].from_hdf5(fn, op["group"], **kw)
-                        res.append({"t": "r", "got": fields_of(op["cls"], got), "raised": None, "ctx": ctx})
-                    except Exception as e:
-                        res.append({"t": "r", "got": None, "raised": f"{type(e).__name__}: {e}"[:200], "ctx": ctx})
+                    got, out = read_op(op["cls"], op["group"], ctx, op.get("via", "name"))
+                    if got is not None and "rid" in op:
+                        got_live[op["rid"]] = got
+                    res.append(dict(out, t="r", ctx=ctx))
             # final sweep: every location is read back with the class of its last successful write
             sweep = []
             for loc, i in sorted(last.items(), key=lambda kv: kv[1]):
                 op = case["ops"][i]
-                kw = {}
-                if op["cls"] == "ge":
-                    kw["gpmod"] = _gpmod(op.get("ctx", 0))
-                try:
-                    got = M[op["cls"]].from_hdf5(fn, op["group"], **kw)
-                    sweep.append({"t": "r", "cls": op["cls"], "group": op["group"], "ctx": op.get("ctx", 0),
-                                  "got": fields_of(op["cls"], got), "raised": None})
-                except Exception as e:
-                    sweep.append({"t": "r", "cls": op["cls"], "group": op["group"], "ctx": op.get("ctx", 0),
-                                  "got": None, "raised": f"{type(e).__name__}: {e}"[:200]})
+                got, out = read_op(op["cls"], op["group"], op.get("ctx", 0), ["name", "open", "path"][i % 3])
+                sweep.append(dict(out, t="r", cls=op["cls"], group=op["group"], ctx=op.get("ctx", 0)))
             return {"res": res, "sweep": sweep}
         finally:
             shutil.rmtree(d, ignore_errors=True)
@@ -1298,6 +2305,8 @@ class C16(Prop):
         for op, r in zip(case["ops"], obs["res"]):
             if op["t"] == "r":
                 op = dict(op, ctx=r.get("ctx", op.get("ctx", 0)))
+            elif r.get("want") is None:
+                continue          # a write whose object could not be obtained (flagged by the judge)
             ops.append((op, r))
         for s in obs["sweep"]:
             ops.append(({"t": "r", "cls": s["cls"], "group": s["group"], "ctx": s["ctx"]}, s))
@@ -1354,13 +2363,20 @@ class C16(Prop):
         specs = answers[1 + nwrites:]
         expected = self._expected(case, obs)
         corr, spec = True, True
-        notes = []
+        notes, cnotes = [], []
+        for r in obs["res"]:
+            # (a write whose source object is missing — the read it builds on failed or was shrunk away — is
+            #  skipped on both sides; a failing read is judged where it happens)
+            if r["t"] == "w" and r.get("src_diff"):
+                spec = False
+                notes.append(f"to_hdf5 changed the object it saved at {r['src_diff']}")
         for (op, r), va in zip([x for x in ops if x[0]["t"] == "w"], valids):
             if not va["ok"]["valid"]:
                 corr = False     # the model's notion of a valid object disagrees with the real constructor
-                notes.append(f"a real {op['cls']} object does not satisfy the theorems' hypothesis `valid`")
+                cnotes.append(f"a real {op['cls']} object does not satisfy the theorems' hypothesis `valid`")
         si = 0
         occupied = set()
+        sites = []
         for idx, ((op, r), m, want) in enumerate(zip(ops, model, expected)):
             loc = norm_group(op["group"])
             if op["t"] == "w":
@@ -1368,7 +2384,7 @@ class C16(Prop):
                 i_ok = r["raised"] is None
                 if m_ok != i_ok:
                     corr = False
-                    notes.append(f"op{idx} write: model={m} impl_raised={r['raised']}")
+                    cnotes.append(f"op{idx} write: model={m} impl_raised={r['raised']}")
                 if not i_ok and not (op["ow"] is False and loc in occupied):
                     spec = False        # a valid write was refused
                     notes.append(f"op{idx} to_hdf5 raised on a valid write: {r['raised']}")
@@ -1378,14 +2394,19 @@ class C16(Prop):
                 if r["got"] is None:
                     if not (isinstance(m, dict) and "err" in m):
                         corr = False
-                        notes.append(f"op{idx} read: impl raised {r['raised']} model={json.dumps(m)[:120]}")
+                        cnotes.append(f"op{idx} read: impl raised {r['raised']} model={json.dumps(m)[:120]}")
                     if want is not None:
                         spec = False
                         notes.append(f"op{idx} from_hdf5 raised: {r['raised']}")
+                        # D30: the parameter-free protocol leaves no group behind (narrow: this class, a named
+                        # group, this refusal, and the model — the code as it is — predicts it)
+                        d30 = (op["cls"] == "tp" and loc != () and isinstance(m, dict) and "err" in m
+                               and "LookupError" in str(r["raised"]) and "must have group" in str(r["raised"]))
+                        sites.append("TruePhenotyping.from_hdf5" if d30 else "other")
                     continue
                 if not (isinstance(m, dict) and "obj" in m and self._same_obj(m["obj"], r["got"])):
                     corr = False
-                    notes.append(f"op{idx} read: model={json.dumps(m)[:300]} impl={json.dumps(r['got'])[:300]}")
+                    cnotes.append(f"op{idx} read: model={json.dumps(m)[:300]} impl={json.dumps(r['got'])[:300]}")
                 if want is None:
                     continue
                 if any(has_other(v) for v in r["got"].values()):
@@ -1399,13 +2420,23 @@ class C16(Prop):
                     spec = False
                     notes.append(f"op{idx} read-back differs from the last object written to "
                                  f"{op['group']!r} in {s['diff']}")
+                if r.get("same_type") is False:
+                    spec = False
+                    notes.append(f"op{idx} from_hdf5 returned an object of another class")
+                if r.get("state_diff"):
+                    spec = False
+                    notes.append(f"op{idx} read-back is not observably equal to the object written at {r['state_diff']}")
         nw = {}
         for op in case["ops"]:
             if op["t"] == "w":
                 nw[norm_group(op["group"])] = nw.get(norm_group(op["group"]), 0) + 1
         nontriv = any(v >= 2 for v in nw.values()) or any(
             op["t"] == "w" and sum(1 for v in op["fields"].values() if v is not None) >= 5 for op in case["ops"])
-        return {"corr": corr, "spec": spec, "nontrivial": nontriv, "detail": "h5 " + "; ".join(notes)[:1500]}
+        nfail = sum(1 for x in notes)
+        site = "TruePhenotyping.from_hdf5" if (sites and all(x == "TruePhenotyping.from_hdf5" for x in sites)
+                                               and nfail == len(sites)) else ("other" if not spec else None)
+        return {"corr": corr, "spec": spec, "nontrivial": nontriv, "site": site,
+                "detail": "h5 " + "; ".join(notes + cnotes)[:1500]}
 
     @staticmethod
     def _same_obj(a, b):
@@ -1425,16 +2456,22 @@ class C16(Prop):
         sig = {"kind": case.get("kind")}
         if case.get("kind") in ("copy", "frame", "graph"):
             sig["cls"] = case.get("cls")
+        if case.get("kind") == "h5":
+            sig["site"] = verdict.get("site")
+            sig["cond"] = "named_group_never_created" if verdict.get("site") == "TruePhenotyping.from_hdf5" else None
         return sig
 
     def shrink(self, case):
         if case["kind"] == "h5":
             ops = case["ops"]
+            used_w = {o.get("reuse") for o in ops if "reuse" in o}
+            used_r = {o.get("from_read") for o in ops if "from_read" in o}
             for i in range(len(ops)):
-                if len(ops) > 1:
+                if len(ops) > 1 and not (ops[i]["t"] == "w" and ops[i].get("id", -1) in used_w) \
+                        and not (ops[i]["t"] == "r" and ops[i].get("rid", -1) in used_r):
                     yield {"kind": "h5", "ops": ops[:i] + ops[i + 1:]}
             for i, op in enumerate(ops):
-                if op["t"] == "w":
+                if op["t"] == "w" and "reuse" not in op and "from_read" not in op:
                     for k, v in op["fields"].items():
                         if v is not None and k not in ("mat", "beta", "u_a", "u_d", "location", "scale", "nenv",
                                                        "nrep", "ploidy"):
@@ -1462,9 +2499,9 @@ class C16(Prop):
         h5util = M["h5util"]
 
         @contextlib.contextmanager
-        def patch_name(name, new):
+        def patch_name(name, new, home=None):
             """replace a function imported by name, in every pybrops module that holds it"""
-            old = getattr(h5util, name)
+            old = getattr(home or h5util, name)
             touched = []
             for mn, mod in list(sys.modules.items()):
                 if mn.startswith("pybrops") and mod is not None and getattr(mod, name, None) is old:
@@ -1650,6 +2687,110 @@ class C16(Prop):
                 out._vrnt_name = names                                   # names keep the file order
             return out
 
+        # --- round 3: mechanisms behind the listed misses and the histories / layouts / magnitudes / sizes --------
+        import unicodedata
+        import pybrops.core.util.array as arrutil
+
+        sg_deep = SG.__deepcopy__
+
+        def sg_deep_rebuild(self, memo=None):
+            out = sg_deep(self, memo)
+            if self.has_spline():
+                out.build_spline(self.spline_kind, self.spline_fill_value)     # fitted afresh instead of copied
+            return out
+
+        def sg_deep_shared_spline(self, memo=None):
+            out = sg_deep(self, memo)
+            out._spline = self._spline                                           # the same dictionary
+            return out
+
+        sg_copy = SG.__copy__
+
+        def sg_copy_default_kind(self):
+            out = sg_copy(self)
+            out._spline_kind = "linear"                                          # the parameter is not carried over
+            return out
+
+        def flattenix_memory_order(arr):
+            xi = tuple(numpy.arange(n) for n in arr.shape)
+            mesh = numpy.meshgrid(*xi, indexing="ij")
+            return arr.ravel(order="K"), tuple(m.flatten("C") for m in mesh)
+
+        def utf8_nfc(h5file, fieldname):
+            out = h5file[fieldname][()]
+            return numpy.array([unicodedata.normalize("NFC", x.decode("utf-8")) if isinstance(x, bytes) else x
+                                for x in out], dtype=object)
+
+        def utf8_strip(h5file, fieldname):
+            out = h5file[fieldname][()]
+            return numpy.array([x.decode("utf-8").strip() if isinstance(x, bytes) else x for x in out], dtype=object)
+
+        def utf8_lower(h5file, fieldname):
+            out = h5file[fieldname][()]
+            return numpy.array([x.decode("utf-8").lower() if isinstance(x, bytes) else x for x in out], dtype=object)
+
+        def read_nan_to_num(h5file, fieldname):
+            out = orig_read(h5file, fieldname)
+            return numpy.nan_to_num(out) if out.dtype.kind == "f" else out
+
+        bv_to_hdf5 = BV.to_hdf5
+
+        def bv_to_hdf5_once(self, filename, groupname=None, overwrite=True):
+            done = self.__dict__.setdefault("_saved_to", set())
+            if groupname in done:
+                return                                                           # "already saved"
+            bv_to_hdf5(self, filename, groupname, overwrite)
+            done.add(groupname)
+
+        cm_to_csv = CM.to_csv
+
+        def cm_to_csv_10g(self, filename, *a, **kw):
+            kw["float_format"] = "%.10g"
+            return cm_to_csv(self, filename, *a, **kw)
+
+        VM = M["vmat"]
+        vm_to_pandas = VM.to_pandas
+
+        def vm_to_pandas_cached(self, *a, **kw):
+            key = "_frame_cache"
+            if key not in self.__dict__:
+                self.__dict__[key] = vm_to_pandas(self, *a, **kw)
+            return self.__dict__[key].copy()
+
+        VM3 = M["vmat3"]
+        vm3_to_pandas = VM3.to_pandas
+
+        def vm3_to_pandas_swapped(self, *a, **kw):
+            df = vm3_to_pandas(self, *a, **kw)
+            fc, mc = kw.get("female_col", "female"), kw.get("male_col", "male")
+            f = df[fc].copy()
+            df[fc] = df[mc]
+            df[mc] = f
+            return df
+
+        def write_truncate_large(h5file, groupname, in_dict, overwrite=True):
+            d2 = {}
+            for k, v in in_dict.items():
+                if isinstance(v, numpy.ndarray) and v.size > 4096 and v.dtype.kind in "fi":
+                    v = v.copy()
+                    v.reshape(-1)[4096:] = 0                                     # a chunk that is never flushed
+                d2[k] = v
+            return h5util.h5py_File_write_dict(h5file, groupname, d2, overwrite)
+
+        bv_from_csv = BV.from_csv.__func__
+
+        def bv_from_csv_comma(cls, filename, *a, **kw):
+            kw.pop("sep", None)                                                   # the separator option is ignored
+            return bv_from_csv(cls, filename, *a, **kw)
+
+        def from_vcf_first_255(cls, filename, auto_group_vrnt=True):
+            out = pg_from_vcf(cls, filename, auto_group_vrnt=False)
+            if out.nvrnt > 255:
+                out = out.select_vrnt(numpy.arange(255))                         # an 8-bit record counter
+            if auto_group_vrnt:
+                out.group_vrnt()
+            return out
+
         return [
             ("write_dict_skip_delete_existing", lambda: patch_name("h5py_File_write_dict", write_no_delete)),
             ("write_dict_keep_first_dataset", lambda: patch_name("h5py_File_write_dict", write_keep_first)),
@@ -1669,6 +2810,22 @@ class C16(Prop):
             ("deepcopy_drops_memo", lambda: patch_attr(AL, "__deepcopy__", al_deep_no_memo)),
             ("vcf_genotypes_1_3", lambda: patch_attr(PG, "from_vcf", classmethod(from_vcf_shifted))),
             ("vcf_names_not_reordered", lambda: patch_attr(PG, "from_vcf", classmethod(from_vcf_labels_unsorted))),
+            # round 3
+            ("gmap_deepcopy_rebuilds_spline", lambda: patch_attr(SG, "__deepcopy__", sg_deep_rebuild)),
+            ("gmap_deepcopy_shares_spline_dict", lambda: patch_attr(SG, "__deepcopy__", sg_deep_shared_spline)),
+            ("gmap_copy_drops_spline_kind", lambda: patch_attr(SG, "__copy__", sg_copy_default_kind)),
+            ("flattenix_memory_order", lambda: patch_name("flattenix", flattenix_memory_order, arrutil)),
+            ("reader_utf8_nfc_normalised", lambda: patch_name("h5py_File_read_ndarray_utf8", utf8_nfc)),
+            ("reader_utf8_stripped", lambda: patch_name("h5py_File_read_ndarray_utf8", utf8_strip)),
+            ("reader_utf8_lowercased", lambda: patch_name("h5py_File_read_ndarray_utf8", utf8_lower)),
+            ("reader_nan_to_num", lambda: patch_name("h5py_File_read_ndarray", read_nan_to_num)),
+            ("to_hdf5_saved_once_per_object", lambda: patch_attr(BV, "to_hdf5", bv_to_hdf5_once)),
+            ("to_csv_ten_significant_digits", lambda: patch_attr(CM, "to_csv", cm_to_csv_10g)),
+            ("to_pandas_cached_on_object", lambda: patch_attr(VM, "to_pandas", vm_to_pandas_cached)),
+            ("three_way_female_male_swapped", lambda: patch_attr(VM3, "to_pandas", vm3_to_pandas_swapped)),
+            ("write_dict_truncates_past_4096", lambda: patch_name("h5py_File_write_dict", write_truncate_large)),
+            ("from_csv_ignores_sep", lambda: patch_attr(BV, "from_csv", classmethod(bv_from_csv_comma))),
+            ("vcf_first_255_records", lambda: patch_attr(PG, "from_vcf", classmethod(from_vcf_first_255))),
         ]
 
 
